@@ -12,944 +12,362 @@ Definition show_fres (r : fres) : string :=
   end.
 Definition check (rs : list rune) : string := digest (show_fres (format_res rs)).
 Definition full (rs : list rune) : string := show_fres (format_res rs).
-Eval vm_compute in ("<<<M3530>>>" ++ check (runes_of_ascii "// top
-options // c0a
-  // c0b
-{ // c1
-LittleEndian = // c3a
-  // c3b
-false
-    // c4
-; // c5a
-  // c5b
-StringPrefixLenType
-    // c6
-= u16 ; // c9
-ArrayPrefixLenType = // c11
-u64 // c12a
-  // c12b
-; FixedStringPadFromLeft // c14a
-  // c14b
-=
-    // c15
-true // c16
-; // c17a
-  // c17b
-FixedStringPadChar
-    // c18
-= // c19
-' '
-    // c20
-; // c21
-} // c22a
-  // c22b
-packet
-    // c23
-Logon // c24a
-  // c24b
-{ // c25
-u16 // c26a
-  // c26b
-Tail // c27a
-  // c27b
-, repeat string
-    // c30
-x
-    // c31
-, i16
-    // c33
-count // c34a
-  // c34b
-, @leftPad // c36a
-  // c36b
-( // c37
-'0' ) // c39a
-  // c39b
-char[ 3 // c41
-]
-    // c42
-Note // c43a
-  // c43b
-, } // c45
-packet // c46a
-  // c46b
-Fill // c47
-{
-    // c48
-}
-    // c49
-packet Heartbeat // c51a
-  // c51b
-{
-    // c52
-} // c53
-packet
-    // c54
-Reject // c55
-{ // c56
-string // c57
-msgKind // c58a
-  // c58b
-, // c59a
-  // c59b
-repeat
-    // c60
-Logon // c61
-, // c62
-InFlags25 // c63
-{ repeat InPrice29 { u8 // c68a
-  // c68b
-price // c69a
-  // c69b
-, // c70a
-  // c70b
-Logon
-    // c71
-, repeat
-    // c73
-char[ // c74a
-  // c74b
-1 // c75a
-  // c75b
-] Note
-    // c77
-, }
-    // c79
-, // c80
-char[] // c81
-x // c82
-, // c83
-Fill , // c85
-} // c86a
-  // c86b
-, repeat // c88a
-  // c88b
-Heartbeat , // c90a
-  // c90b
-} // c91a
-  // c91b
-root // c92
-packet // c93a
-  // c93b
-Order { InNote88 // c96
-{ // c97
-repeat // c98a
-  // c98b
-i32
-    // c99
-Acct ,
-    // c101
-repeat // c102a
-  // c102b
-i16 clOrdID // c104
-, // c105a
-  // c105b
-repeat // c106a
-  // c106b
-Logon // c107
-, } // c109
-, // c110a
-  // c110b
-u16 tag7 // c112a
-  // c112b
-,
-    // c113
-match // c114
-tag7 as
-    // c116
-Body // c117
-{ [
-    // c119
-14 // c120
-, // c121a
-  // c121b
-22 // c122a
-  // c122b
-] :
-    // c124
-Logon // c125
-,
-    // c126
-55 // c127a
-  // c127b
-: // c128a
-  // c128b
-Heartbeat , // c130
-93 // c131a
-  // c131b
-: Reject , // c134a
-  // c134b
-13 // c135
-: // c136a
-  // c136b
-Fill
-    // c137
-, // c138
-}
-    // c139
-, // c140a
-  // c140b
-}
-    // c141
-")).
-Eval vm_compute in ("<<<M869>>>" ++ check (runes_of_ascii "// trailing space 
-root packet options1
-{
-match u8x as tag {1 :As } ,
-// packet A { u8 x, }
-// `tick` ""quote"" 'q'
-} // " ++ [128512]%N ++ runes_of_ascii " emoji
-root  packet
-// " ++ [27880; 37322]%N ++ runes_of_ascii "
-// " ++ [27880; 37322]%N ++ runes_of_ascii "
-roots
-{MetaDataX
-@calculatedFrom(""abc""
-)// " ++ [128512]%N ++ runes_of_ascii " emoji
-, //
-repeat zchar uint8x
-,
-u8x
-roots
-,// packet A { u8 x, }
-a1	`u8 x,`
-, float32 int@lengthOf( metadata ) `a\`, match
-    charz as i8i8
-    { 42	:Pad [  10  ,
-    ""1"" ] // `tick` ""quote"" 'q'
-:  pack}
-    // packet A { u8 x, }
-    , repeat // c
-Header
+Eval vm_compute in ("<<<M180>>>" ++ check (runes_of_ascii "// @lengthOf(
+MetaData
+zchar {string
+o
+`crlf
+line`	, char[]
+pack // c
+`crlf
+line` , char[]
+    // trailing space 
+    Foo,
+} options { stringy =
+""`tick`""
+    } packet leftPad {
+    packetx
+    @lengthOf(  roots), @lengthOf(int
 // a // b
-//x
-, } packet repeatCount {
-    @lengthOf( metadata)@calculatedFrom( ""CRC32""
-    )@lengthOf(
-// c
 // " ++ [27880; 37322]%N ++ runes_of_ascii "
-x_y_z )
-    As @lengthOf(
-    u128 ), @calculatedFrom(
-    ""a	b""
-) // " ++ [27880; 37322]%N ++ runes_of_ascii "
-o {  A@calculatedFrom( ""CRC32""
-)
-`it's` , body`{ , }` , }, @calculatedFrom(""packet""
-    )
-    @lengthOf( A
-) @tag( 255 ) repeat BodyLength trueish ,  u
-{ Pad{ string repeatCount ``/// triple
-, } ,
-}
-    ,@tag(
-    4294967296
-)@tag(
-10 )repeat zchar tag
-,repeat crc {repeat tag	T // " ++ [27880; 37322]%N ++ runes_of_ascii "
-`" ++ [28040; 24687; 31867; 22411]%N ++ runes_of_ascii "`
-    , //
-match
-    // " ++ [128512]%N ++ runes_of_ascii " emoji
-    matchKey as crc {
-4294967296 /// triple
-: tag, """ ++ [128512]%N ++ runes_of_ascii """
-: // @lengthOf(
-Packet 65535: uint8x ,}// @lengthOf(
+) @calculatedFrom( ""a\""b"" )
+    @calculatedFrom( """ ++ [28040; 24687]%N ++ runes_of_ascii """ ) int32
+MetaDataX `" ++ [233]%N ++ runes_of_ascii "` // " ++ [27880; 37322]%N ++ runes_of_ascii "
+, u8 int// `tick` ""quote"" 'q'
 ,
-pack { f32 zchar @calculatedFrom( ""abc"" )
-,} , match zchar as// @lengthOf(
-options1
-{
-//
-// @lengthOf(
-0123456789	:x 007  : repeatCount
-[ ""packet""
-    //x
-    ,0123456789
+@lengthOf( options1
+    ) repeat u8 BodyLength// `tick` ""quote"" 'q'
 ,
-    ""// no comment"",
-""x y"" ]
-// @lengthOf(
-// " ++ [128512]%N ++ runes_of_ascii " emoji
-:
-Header	, 3: MetaDataX	""// no comment""
-:
-    len  ,  [  0 ] :
-    //x
-    Header ,} ,
-} ,
-repeat f32a {repeat
-    Header  , // " ++ [27880; 37322]%N ++ runes_of_ascii "
-calculatedFrom
-{ a1 {leftPad
-`say ""hi""` ,
-    zchar[ 255 ]//x
-f32a //
-@calculatedFrom(
-""\n"" ) `// not a comment` ,  Foo @lengthOf(o ) //
-`" ++ [233]%N ++ runes_of_ascii "` , } , }	,},} 	 ")).
-Eval vm_compute in ("<<<M441>>>" ++ check (runes_of_ascii "packet // " ++ [27880; 37322]%N ++ runes_of_ascii "
-o //x
-{  @tag( 0 ) match leftPad as // @lengthOf(
-metadata { 1 :	calculatedFrom ,
-    7 : i64_ ,
-""it's""
-    : i64_ 0123456789 :repeatCount , 0
+    @tag( 1
+    ) Logon
+    ,repeat int32 u8x
+`say ""hi""`, match int
+as
+charz	{ ""abc"" : roots } ,string_ {zchar	@lengthOf( calculatedFrom ) ``
+,
+} , } root packet lengthOf {
+@tag( 4294967296 )A // packet A { u8 x, }
+@lengthOf( i64_ )`doc` , body@lengthOf( lengthOf ) `it's`
     // packet A { u8 x, }
-    :
-    Foo }
-, lengthOf { A`doc`	, } , char[3
-] matchKey `{ , }` ,leftPad // `tick` ""quote"" 'q'
-{ repeat
-    // a // b
-    u8
+    , zchar[ 10 ] // " ++ [27880; 37322]%N ++ runes_of_ascii "
+i8i8, @calculatedFrom( """ ++ [233]%N ++ runes_of_ascii "t" ++ [233]%N ++ runes_of_ascii """	) i64 int `u8 x,`,	repeat trueish { string  options1 , zchar[
+    0123456789 ]_x
+`tab	here` ,
+Pad
+    { repeat string repeatCount , repeat string _x , Packet
+@lengthOf( roots ) `
+`
+    , string crc@calculatedFrom(""abc""),
+} , match i8i8 as  string_ {// c
+[ ""it's""
+]
+:
 options1 ,
-body @calculatedFrom( """ ++ [128512]%N ++ runes_of_ascii """ )
-, zchar { // `tick` ""quote"" 'q'
-u64 Logon @lengthOf( u8x	)
-,
-char[ 007 ] packetx
-@lengthOf(
-    zchar )`
-` ,}
-, repeat metadata x ,	}
-    , u32 repeatCount
-    ,@tag(
-    // c
-    10
-)
-    @lengthOf( T  )
-u16 repeatCount `say ""hi""`, /// triple
-repeat
-u128 {
 //
-// packet A { u8 x, }
-zchar[4294967296 ] BodyLength  ,} , i32  x `doc`
-, }
-    packet MetaDataX { // a // b
-@tag(// c
-7
-) repeat lengthOf
-// a // b
-//
-,
-    } root
-packet As
-    {
-@lengthOf(
-lengthOf
-) match _x	as T{""packet"":string_ ,3 : // @lengthOf(
-BodyLength ,""" ++ [128512]%N ++ runes_of_ascii """ // trailing space 
-:
-    i64_, 0 :
-    lengthOf // trailing space 
-, /// triple
-7
-    : Logon} ,Z9_
-@calculatedFrom( ""\" ++ [233]%N ++ runes_of_ascii """ //	t
-) ,	float32
-int @lengthOf(
-    msg_type ) `// not a comment`
-// packet A { u8 x, }
-// `tick` ""quote"" 'q'
-,char[] A @calculatedFrom(	""\n""
-    )
-, @tag(4294967296) i8i8 {uint32
-u8x , } ,
-zchar[
-00
-// c
-// c
-] uint8x ,repeat msg_type string_	, repeat zchar[007//x
-]
-    Pad // " ++ [27880; 37322]%N ++ runes_of_ascii "
-`doc`,  match rootA as stringy {  007: leftPad , [ """ ++ [233]%N ++ runes_of_ascii "t" ++ [233]%N ++ runes_of_ascii """, 7 ] :
-    x
-},}
-")).
-Eval vm_compute in ("<<<M3865>>>" ++ check (runes_of_ascii "root packet As {
-    @calculatedFrom(""{,}"")
-    // packet A { u8 x, }
-    // @lengthOf(
-    Header {
-        repeat uint8 uint8x `// not a comment`,
-    },
-    @tag(3)
-    repeat i64 i64_ `it's`,
-    @lengthOf(i8i8)
-    repeat i64 metadata,
-    repeat i8 chars `a\`,
-    repeat zchar[4294967296] x_y_z,
-    @leftPad('0')
-    char[42] options1,
-    repeat o,
-}
-
-root packet float {
-}
-
-packet Packet {
-    uint8x roots,
-    zchar[0123456789] msg_type `a\`,
-    @calculatedFrom(""" ++ [233]%N ++ runes_of_ascii "t" ++ [233]%N ++ runes_of_ascii """)
-    //
-    // trailing space 
-    repeat Packet {
-        repeat int64 T,
-        repeat zchar[1] falsey `it's`,
-        match leftPad as f32a {
-            // " ++ [128512]%N ++ runes_of_ascii " emoji
-            ""a\""b"" : MetaDataX,
-            [65535] : rootA,
-        },
-    },
-    @tag(007)
-    repeat char[4294967296] Z9_,
-    string Packet @calculatedFrom(""CRC32"") `u8 x,`,
-}
-
-root packet x {
-    pack tag ``,// `tick` ""quote"" 'q'
-}
-
-packet Z9_ {
-    char[] BodyLength,
-    zchar @lengthOf(x) `" ++ [28040; 24687; 31867; 22411]%N ++ runes_of_ascii "`,
-    uint8 float,
-    i64 u8x,
-    @lengthOf(leftPad)
-    //
-    int @lengthOf(lengthOf),
-    zchar {
-        zchar[0] Z9_,
-    },
-    float `crlf
-        line`,
-    repeat Z9_ {
-        repeat options1,
-        i32 As,
-        string stringy @lengthOf(leftPad) `" ++ [28040; 24687; 31867; 22411]%N ++ runes_of_ascii "`,
-    },
-    char[10] x,
-    int,
-}// c")).
-Eval vm_compute in ("<<<M107>>>" ++ check (runes_of_ascii "packet chars
-{
-    i8 Z9_ ,
-match
-// " ++ [128512]%N ++ runes_of_ascii " emoji
-//	t
-zchar
-    as Logon
-{ 00	: i8i8[
-    ""// no comment""
-, 42
-    , 10 , ""it's"" , 4294967296
-, ""`tick`"" ,
-    ""x y"" , ""a\""b"" ]
-    :leftPad [ ""\" ++ [233]%N ++ runes_of_ascii """ ]: A [ ""abc"" /// triple
-, ""1""
-    ] :
-zchar ,	3 :
-x,
-    3 :
-x_y_z , }
-    , uint8x // a // b
-@calculatedFrom(
-    ""{,}"" )//x
-, } // `tick` ""quote"" 'q'
-packet calculatedFrom { int32
-T, @lengthOf( float ) f32a len , @calculatedFrom(""" ++ [233]%N ++ runes_of_ascii "t" ++ [233]%N ++ runes_of_ascii """
-    ) int32 f32a
-@lengthOf( // c
-matchKey
-) `" ++ [233]%N ++ runes_of_ascii "`
-, charz @calculatedFrom( ""x y""),} root packet stringy //	t
-{ @lengthOf( Logon )
-int64 len
-    //x
-    @calculatedFrom( // `tick` ""quote"" 'q'
-""CRC32"") , T // " ++ [27880; 37322]%N ++ runes_of_ascii "
-@calculatedFrom( ""1"" ) `line1
-line2`, @tag( 255 )
-    @tag( 7 )@tag(
-007
-)repeat
-packetx len
-//	t
-// packet A { u8 x, }
-, @tag(
-1 ) repeat  zchar[
-0] float , //
-@lengthOf(
-    lengthOf ) repeat x_y_z {char[ 10]u `
-`
-    , MetaDataX a1
-    `u8 x,`  , }  , @tag( 1 ) string repeatCount `" ++ [28040; 24687; 31867; 22411]%N ++ runes_of_ascii "`,
-int8 int @calculatedFrom(
-""// no comment""
-) , } packet
-    asx
-{
-    @leftPad ( '\x00' )
-char[
-    00]
-u8x @calculatedFrom( """ ++ [233]%N ++ runes_of_ascii "t" ++ [233]%N ++ runes_of_ascii """ ) , zchar[007 ] asx @calculatedFrom(
-""" ++ [128512]%N ++ runes_of_ascii """)	,repeat MetaDataX metadata
-    `
-`,
-    } 	 ")).
-Eval vm_compute in ("<<<M273>>>" ++ check (runes_of_ascii "root packet T // trailing space 
-{
-//	t
-//
-@rightPad( // " ++ [27880; 37322]%N ++ runes_of_ascii "
-'\x00'
-    ) repeat metadata {repeat
-    i64 Z9_ , }
-    , } options {_x = char[] ; tag
-    =
-    // packet A { u8 x, }
-    uint32 calculatedFrom	=u16;  } packet // c
-packetx { @leftPad /// triple
-(' '	) int trueish , packetx
-{
-    leftPad	@lengthOf( //	t
-string_ )
-    , // `tick` ""quote"" 'q'
-repeat o	string_	,  match // " ++ [27880; 37322]%N ++ runes_of_ascii "
-stringy as packetx{ 0 :// `tick` ""quote"" 'q'
-pack,
-    // @lengthOf(
-    ""CRC32""	:tag ,
-    // trailing space 
-    """ ++ [128512]%N ++ runes_of_ascii """:
-    Z9_	4294967296 :  chars//x
-,007 : calculatedFrom ,10
-    : u8x , }
-    , } // " ++ [27880; 37322]%N ++ runes_of_ascii "
-, repeat BodyLength{ //	t
-repeat char[ 3 ]	metadata `a\` ,  repeat char
-pack`a\` , char
-Header
-    //	t
-    @calculatedFrom(
-""// no comment"")
-    ,
-    uint32 roots
-    @lengthOf( i64_ ) ,
-    }
-    ,
-// a // b
-// trailing space 
-pack , repeat len Header `
-` ,	f64	f32a, char[] x,
-    Header @lengthOf(a1	) , asx
-@lengthOf( calculatedFrom	) ,  } MetaData roots {
-options1 As// a // b
-, string_
-// `tick` ""quote"" 'q'
-// c
-float
-`{ , }`
-/// triple
-// packet A { u8 x, }
-, // trailing space 
-} 	 ")).
-Eval vm_compute in ("<<<M276>>>" ++ check (runes_of_ascii "
-packet body {match u as f32a {  ""// no comment""	:
-    float ,}	,
-    // trailing space 
-    float32 int ,
-    char[]tag `u8 x,`
-    // packet A { u8 x, }
-    , @lengthOf( body ) repeat // " ++ [27880; 37322]%N ++ runes_of_ascii "
-i64_ crc
-,@leftPad ('0' ) float64 zchar
-    , // packet A { u8 x, }
-@lengthOf( A)
-@leftPad  ( ) @lengthOf( int
-)
-    //
-    crc	@calculatedFrom( ""1"") ,
-    }  root packet
-    body{
-    /// triple
-    @lengthOf( T
-    ) repeat
-u128 `line1
-line2` ,
-string // `tick` ""quote"" 'q'
-BodyLength , @calculatedFrom( ""x y"" ) char[] zchar @calculatedFrom(
-    ""a\""b"")	`" ++ [28040; 24687; 31867; 22411]%N ++ runes_of_ascii "` //x
-, falsey//	t
-trueish	, /// triple
-@rightPad // @lengthOf(
-( '\x00'  )	@lengthOf( As) @tag( 4294967296  )repeat char[] uint8x , packetx,
-    @tag(
-7 )
-    //
-    i64 roots
-// `tick` ""quote"" 'q'
-// " ++ [27880; 37322]%N ++ runes_of_ascii "
-@calculatedFrom( """ ++ [233]%N ++ runes_of_ascii "t" ++ [233]%N ++ runes_of_ascii """
-)  `// not a comment`
-    , @calculatedFrom( ""x y"" )
-    /// triple
-    f64 float@lengthOf(
-    Packet // " ++ [27880; 37322]%N ++ runes_of_ascii "
-), @tag(  4294967296 ) u32
-lengthOf@calculatedFrom(""\" ++ [233]%N ++ runes_of_ascii """)// c
-, @tag(	10 ) Foo ,
-}	packet leftPad { } options {i8i8 =zchar[ 7 ]}")).
-Eval vm_compute in ("<<<M391>>>" ++ check (runes_of_ascii "packet body{ }root packet  x { @rightPad
-/// triple
 // @lengthOf(
-(  '\x00' ) charz // c
-`tab	here`	, @calculatedFrom( ""\" ++ [233]%N ++ runes_of_ascii """
-    ) // a // b
-u128 , }packet trueish // " ++ [128512]%N ++ runes_of_ascii " emoji
-{  match leftPad as u { // packet A { u8 x, }
-""1"" :
-float , 007: Packet
-, 65535
-// `tick` ""quote"" 'q'
-//
-:  _x 0123456789 : //x
-charz ,
-""" ++ [233]%N ++ runes_of_ascii "t" ++ [233]%N ++ runes_of_ascii """	: f32a  , ""abc"" : BodyLength ,} ,
-repeat char T
-,
-    @tag(
-    // trailing space 
-    42 ) @tag(// packet A { u8 x, }
-4294967296// @lengthOf(
-)
-@rightPad // @lengthOf(
-('0' )repeat // c
-int64 zchar
-//	t
-// `tick` ""quote"" 'q'
-, }root packet Packet{
-repeat	_x {
-trueish
-/// triple
-// a // b
-Foo ,} , @rightPad( '\x00' )int64 x_y_z @lengthOf(
-    rootA )`
-`
-, @tag(
-// @lengthOf(
-// " ++ [27880; 37322]%N ++ runes_of_ascii "
-4294967296
-    ) //	t
-match
-pack	as pack
-{ 007  :Logon, [42
-    ] :metadata
-    4294967296 : rootA
-// a // b
-//x
-""1"" // c
-: uint8x
-, } , i8i8
-{ i16 stringy `crlf
-line` ,
-    // trailing space 
-    Pad x_y_z , u16 Packet @calculatedFrom( """"
-)
-, } , // c
-} /// triple")).
-Eval vm_compute in ("<<<M301>>>" ++ check (runes_of_ascii "root  packet
-    MetaDataX { } options
-    {
-matchKey
-= ""abc""
-;i64_ =// a // b
-7 ; len  = 1 x_y_z =//x
-'0' ; } options { A
-    = 7 len
-// a // b
-//x
-=	zchar[4294967296 ]	;o
-    = string ;
-    int = false f32a = // trailing space 
-""CRC32"" ;} root
-    packet crc
-    // " ++ [27880; 37322]%N ++ runes_of_ascii "
-    { char[]
-string_
-    ,match i8i8 // c
-as tag { //x
-3 :packetx } ,  @rightPad(' '	)  repeat _x
-// packet A { u8 x, }
-//x
-{ a1
-trueish `// not a comment` , }	, int16// packet A { u8 x, }
-Z9_ ,@lengthOf( uint8x
-    // @lengthOf(
-    )
-// `tick` ""quote"" 'q'
-// `tick` ""quote"" 'q'
-zchar[
-    // " ++ [128512]%N ++ runes_of_ascii " emoji
-    4294967296  ]A
-@lengthOf( i64_  ) //	t
-`two words` ,repeat // " ++ [27880; 37322]%N ++ runes_of_ascii "
-uint64 metadata
-,
-@calculatedFrom(
-""packet"" ) string
-//x
-//	t
-x
-`it's`
-, match	T
-as asx
-// " ++ [27880; 37322]%N ++ runes_of_ascii "
-//	t
-{ ""abc"" : A , ""it's""
-:
-    Logon, }  ,// packet A { u8 x, }
-@calculatedFrom(
-//
-// a // b
-""\n"" ) string _x , uint64 zchar @lengthOf(
-lengthOf
-) , } packet
-uint8x { } // a // b")).
-Eval vm_compute in ("<<<M4341>>>" ++ check (runes_of_ascii "  MetaData i8i8
-    {A	u128
-	,
-
-    }/// triple
-  	packet 
-tag
-{
-repeat
-    string_ 
-falsey
-
-    `doc`,
-repeat	Z9_ 
-{  Header
-Logon
-`doc` 	 // packet A { u8 x, }
-    ,
-	int16
-
-    uint8x // `tick` ""quote"" 'q'
-@lengthOf(
-	body
-	)
-, 
-char[]
-lengthOf
+""a	b"":
+string_ , [
+""a	b""
+, 00 ] //	t
+: // `tick` ""quote"" 'q'
+metadata  ,
+    0 :	o
+    ""\" ++ [233]%N ++ runes_of_ascii """
+    : Pad // packet A { u8 x, }
 ,}
-	, 
-@lengthOf( asx
-
-) repeat matchKey  ,  @leftPad
-    (
-' ' ) @rightPad (
+,} , char[7 ]  i8i8 `tab	here`
+    , roots { repeat uint8 _x`tab	here`,	}  ,
+    repeat int64 f32a	,
+match asx
+as calculatedFrom { 65535 : asx
+// trailing space 
+//x
+, [ 1
+] :  uint8x,
+42 :x
+[ ""x y"" , ""1"",""`tick`"" , ""1"" ,
+""1""
+,	""a	b"" ]
+    :
+    MetaDataX }
+,} MetaData
+chars
+    { }")).
+Eval vm_compute in ("<<<M213>>>" ++ check (runes_of_ascii "packet a1
+{
+@lengthOf(	f32a	) repeat u64	string_
+    ,
+    @calculatedFrom( """"
+    ) repeat	i16 tag `u8 x,` , @tag( 42 ) @calculatedFrom(	""a\\"")  @calculatedFrom( ""\" ++ [233]%N ++ runes_of_ascii """
+) zchar[ 10
+] Foo , char[42
+    //	t
+    ]
+    body `// not a comment` , }MetaData roots{ uint64
+Z9_ `{ , }`,
+char[]charz `doc` , uint16 u128 `u8 x,` , zchar[ 4294967296 // trailing space 
+]
+    len
+,
+float32
+stringy
+,
+} packet
+Z9_	{ @leftPad ('\x00')
+    @tag(42 ) @tag( 7)
+    roots x
+    , @lengthOf( int ) crc zchar
+//	t
+//
+, } packet string_ { u8 Pad
+// c
+// " ++ [128512]%N ++ runes_of_ascii " emoji
+, u64 chars
+,
+    @lengthOf(	Logon
+)
+    pack
+,
+@leftPad (
+    ) @rightPad//
+(
+    ' '	)@calculatedFrom(""a	b"")
+    i8 x `crlf
+line`
+    , char[ 0123456789 // @lengthOf(
+]options1 @calculatedFrom( ""{,}"" )
+`two words` ,uint64 charz `doc` , char[] u128
+// packet A { u8 x, }
+//	t
+,
+    @calculatedFrom( ""1"" ) repeat matchKey
+    {
+repeat int o// c
+, } ,
+@lengthOf(calculatedFrom
+    )@rightPad ( '\x00')
+@tag( 00 )
+MetaDataX { uint32 BodyLength, } ,
+// trailing space 
+//
+} packet lengthOf {  @calculatedFrom(	""" ++ [28040; 24687]%N ++ runes_of_ascii """
+    )
+// trailing space 
+// " ++ [27880; 37322]%N ++ runes_of_ascii "
+repeat	repeatCount { repeat char[ 7]	pack `// not a comment`, }
+, }
+")).
+Eval vm_compute in ("<<<M248>>>" ++ check (runes_of_ascii "packet
+Packet
+    {
+} packet repeatCount{@tag(	4294967296
+    ) @lengthOf(A  ) @lengthOf( float ) rootA ,
+@tag(0123456789  )
+Header
+    `// not a comment`,  matchKey
+    f32a
+    , Pad, repeat float32	uint8x
+    `" ++ [233]%N ++ runes_of_ascii "` ,@leftPad
+    ('\x00' )	repeat
+    char[3]
+tag `
+`, repeat
+pack {
+repeat x { repeat f64 len ,
+    i64_ len, }
+    ,
+repeatCount
+    // `tick` ""quote"" 'q'
+    @lengthOf(uint8x
+    ) , match	zchar  as a1 {
+// a // b
+// packet A { u8 x, }
+3: u ,
+},// packet A { u8 x, }
+repeat rootA
+{ options1 {
+repeat body u8x `crlf
+line`	, match Z9_ as
+    f32a{007
+:repeatCount ,
+    ""packet""
+: calculatedFrom
+    ,
     // " ++ [128512]%N ++ runes_of_ascii " emoji
-  // " ++ [27880; 37322]%N ++ runes_of_ascii "
+    10 // `tick` ""quote"" 'q'
+: /// triple
+calculatedFrom
+    ,
+""CRC32""  :	_x , [	""x y""	] : i64_ , ""packet""
+// `tick` ""quote"" 'q'
+// a // b
+:// `tick` ""quote"" 'q'
+MetaDataX
+    ,  }
+// a // b
+// " ++ [27880; 37322]%N ++ runes_of_ascii "
+, } ,
+    //x
+    } , } ,  } MetaData// @lengthOf(
+asx {	u trueish ,chars // c
+f32a `// not a comment`	, float64 u128 , string_ string_ `
+` , }packet crc
+{ }")).
+Eval vm_compute in ("<<<M1889>>>" ++ check (runes_of_ascii "  options	{ LittleEndian
+	= true ;StringPrefixLenType = 
+u32  ; 
+FixedStringPadChar 
+='0'
+	;	}  packet Logout
+	{ 
+repeat
 
-' '
+InMsgkind49	{
+    u8
+    pad0
+
+,
+	}
+,repeat char[ 
+5]seqNo ,repeat
+
+u8 price 
+,} 
+packet Party
+    { zchar[ 7
+]  Qty
+    ,
+
+    }
+packet Logon
+{
+repeat
+	InRef10 {  string 
+price	, 
+char[]  sym	,
+repeat	Logout
+,},
+
+    repeat
+    char[ 3
+]count ,repeat 
+Party,	char[] tag7, 
+@rightPad 
+( '0'
+) char[
+
+2]clOrdID ,
+    }packet
+Order 
+{
+
+    InTail13 { Party ,  }
+,	repeat  char[
+
+4  ]
+count ,}root
+
+packet 
+Cancel{
+
+Logout
+
+    ,
+@leftPad
+
+('0' ) 
+char[
+	9 
+] msgKind ,
+string
+	lastPx
+	,	string
+
+tag7
+
+    ,
+	zchar[
+1  ]
+
+OrderId
+,
+    repeat	Party
+
+,  u16  sym	, 
+u16 
+Acct
+	@lengthOf(
+Body
+) ,
+match
+
+sym
+    as 
+Body {
+	[
+24 , 
+44	]
+:
+Logout , 
+160 : Order	,91
+
+    :Logon
+
+    ,43:
+Party	,
+    } ,
+u16	Tail
+@calculatedFrom(""CRC32""
 
 )
-Z9_`{ , }`,	char[
-1
-
-    ]
-	len
-
-    `{ , }`	,} 	 // trailing space 
-  options{ chars
-
-    =
-""1""
-	trueish // c
-    	=	// " ++ [27880; 37322]%N ++ runes_of_ascii "
-""a	b""u 
-=
-true
-; 
-crc 
-='0'
-    ;}
-
-packet  leftPad 
-{ @leftPad (
-
-' '
-)  // packet A { u8 x, }
-  zchar
-i64_ , match options1 as // c
-    string_
-
-    {
-[
-
-""a\""b""
-
-,
-	""packet""  ,
-    ""a\\""	, 
-""" ++ [128512]%N ++ runes_of_ascii """	]	:
-i64_ ,42 	 /// triple
-:  Z9_ ,	} ,
-    zchar[ 00
-
-] trueish
 	,
-    @rightPad	// trailing space 
-    (
+} ")).
+Eval vm_compute in ("<<<M1924>>>" ++ check (runes_of_ascii "MetaData msg_type {
+    string charz,
+    crc u8x,
+    u16 x_y_z `u8 x,`,
+    i64 zchar,
+}
 
-    ' '
-) packetx
+// @lengthOf(
+packet T {
+    @calculatedFrom(""a\\"")
+    uint16 chars @calculatedFrom(""x y"") `
+    `,
+}
 
-options1
+packet pack {
+}
 
-    `line1
-line2`  ,  }//
- 
-")).
-Eval vm_compute in ("<<<M1290>>>" ++ check (runes_of_ascii "  packet len//	t
-{ @tag(255
-// packet A { u8 x, }
-// trailing space 
-) chars leftPad  ,
-repeat char[ 0123456789 ] o
-// `tick` ""quote"" 'q'
-// trailing space 
-`{ , }`  , falsey { f32a @lengthOf(metadata
-    ) `// not a comment`, //	t
-match pack // trailing space 
-as//	t
-asx{
-10	:	u128 ,
-} , } ,body Logon ,@calculatedFrom(""\" ++ [233]%N ++ runes_of_ascii """ ) u32 tag@lengthOf(
-uint8x ) `crlf
-line` ,  uint8x { zchar[ 10
-    ]  packetx @lengthOf(
-    pack// @lengthOf(
-) ,
-char[	4294967296]// trailing space 
-msg_type, }
-,
-string float `it's`	, @tag(0)
-    @tag( 42 ) u128 {repeat char[]
-BodyLength
-,match As as Logon{	[7
-// c
-//x
-, 1  , ""// no comment"", 00 // `tick` ""quote"" 'q'
-, """" , 0123456789 ]
-:	body , """ ++ [128512]%N ++ runes_of_ascii """ : Packet
-    , 42 :
-    u ""1""	: chars,
-} , }
-    , //	t
-repeat zchar[42	]u , }
-    //	t
-    packet stringy { body x,	} // trailing space ")).
-Eval vm_compute in ("<<<M465>>>" ++ check (runes_of_ascii "root
-packet rootA { repeat
-//x
-// c
-uint32 charz , }
-packet Packet{
-falsey
-    charz
-    `say ""hi""`,
-    // packet A { u8 x, }
-    @tag( 7) BodyLength@calculatedFrom(""a\""b"" )
-`line1
-line2`, } root
-    packet u //x
-{
-zchar[ 0 ]msg_type @calculatedFrom(""CRC32"") `tab	here` ,}packet	tag {
-@lengthOf(	A)match x //	t
-as roots  {
-// `tick` ""quote"" 'q'
-// c
-"""" : tag
-, 00 //x
-: packetx, 007  :
-    body """ ++ [28040; 24687]%N ++ runes_of_ascii """
-: trueish , 0
-:  lengthOf
-,
-} , crc ,
-string Packet , Pad@calculatedFrom(""a\""b"" )
-, repeat Pad
-    {
-match a1 as trueish
-    { 00 :
-trueish 7:	calculatedFrom , // c
-[	""""
-]	: BodyLength
-,[7] :BodyLength , 3 :
-i64_
-0 :Pad
-, }	,}
-// " ++ [27880; 37322]%N ++ runes_of_ascii "
-// a // b
-, //	t
-string T
-`line1
-line2` , @rightPad
-    ( ' '
-) rootA {	string
-    x `doc`,char[
-    0 ]Packet @calculatedFrom(""abc"" ),
-    }
-    ,
-}")).
-Eval vm_compute in ("<<<M479>>>" ++ check (runes_of_ascii "packet // " ++ [128512]%N ++ runes_of_ascii " emoji
-BodyLength { zchar[
-10 ] x
-    @calculatedFrom( """" ) ,  @lengthOf(
-    string_
-    )metadata
-, @lengthOf(	trueish
-) repeat
-chars { zchar[ 00 ]T @calculatedFrom(
-    ""a	b"" ) `crlf
-line` ,
-char[// @lengthOf(
-0
-]
-chars	, }
-    , uint8
-    // a // b
-    rootA
-@lengthOf( int) , @lengthOf( packetx
-) char[	007 ]
-uint8x @calculatedFrom( ""\" ++ [233]%N ++ runes_of_ascii """
-) ,
-    u
-{ char[] Pad @calculatedFrom(
-""\n"" ) , }, char[
-    10 ]
-pack
-@lengthOf(
-_x //	t
-)`two words`
-, char[]
-    Logon	@lengthOf(body
-    ) , @lengthOf(matchKey )
-    chars { uint16  pack ,  char[ 4294967296]
-// trailing space 
-/// triple
-options1@calculatedFrom( ""CRC32"") // packet A { u8 x, }
-, u32 i64_
-`say ""hi""`, lengthOf `// not a comment`  ,
-    } , options1 @lengthOf( x
-) , }
-")).
+options {
+}
+
+packet trueish {
+    // trailing space 
+    @calculatedFrom(""abc"")
+    match chars as lengthOf {
+        [4294967296] : a1,
+        [
+            ""CRC32"", 7, ""1"", 4294967296, ""a\\"",
+            0, 65535, ""{,}""
+        ] : a1,
+    },
+    string lengthOf `" ++ [28040; 24687; 31867; 22411]%N ++ runes_of_ascii "`,
+    @lengthOf(x)
+    match charz as a1 {
+        255 : Logon,
+    },
+    @calculatedFrom(""a	b"")
+    @tag(00)
+    @lengthOf(zchar)
+    body @lengthOf(msg_type),
+    MetaDataX @lengthOf(len) `a\`,
+    @rightPad('\x00')
+    @lengthOf(Packet)
+    string u128 `u8 x,`,
+    packetx @lengthOf(o),
+}
+// @lengthOf(")).
 Eval vm_compute in ("<<<M292>>>" ++ check (runes_of_ascii "packet tag	{/// triple
 @leftPad (  '\x00' )char[ 10 ]
 //	t
@@ -988,1379 +406,629 @@ line`  ,
     , Foo T ,// @lengthOf(
 zchar[  00 ] charz @lengthOf( tag )
 , }")).
-Eval vm_compute in ("<<<M230>>>" ++ check (runes_of_ascii "//x
-root packet Z9_ { @calculatedFrom( ""a\\"")zchar[ 1] // @lengthOf(
-a1 @lengthOf(
-Z9_) ,
-@tag( 0123456789
-    )@lengthOf(
-Header ) @tag( 4294967296 ) uint8 u128  ,i16 msg_type// trailing space 
-, tag matchKey, repeat i8 options1 `tab	here` , repeat /// triple
-f32a Z9_,
-/// triple
-//	t
-match tag as Foo { 42 : Logon ,
-    [ 4294967296
-    ] : Pad , 3 :a1 , [007	, 1 ]
-: a1 ,}
-    ,// packet A { u8 x, }
-repeat zchar { repeat //
-u8 options1 // c
-, leftPad
-{	msg_type ,
-} ,
-leftPad@lengthOf( string_
-)
-    `a\` ,
-    }, zchar charz , string tag @calculatedFrom(
-""{,}"")
-, // " ++ [27880; 37322]%N ++ runes_of_ascii "
-}
-    packet// @lengthOf(
-u128 {@tag(// " ++ [27880; 37322]%N ++ runes_of_ascii "
-4294967296 ) @tag( 42
-) f32a @lengthOf( float )
-    `" ++ [233]%N ++ runes_of_ascii "` ,	}
-")).
-Eval vm_compute in ("<<<M3724>>>" ++ check (runes_of_ascii "root packet _x {
-    //	t
-    uint16 _x,
-    @tag(7)
-    repeat uint32 crc `line1
-        line2`,
-    match stringy as packetx {
-        255 : len,
-        255 : A,
-        1 : Z9_,
-        ""it's"" : body,
-        [""{,}"", ""packet"", 0, ""\n""] : x,
-    },
-    repeat uint32 Logon `tab	here`,
+Eval vm_compute in ("<<<M1602>>>" ++ check (runes_of_ascii "options {
+    string_ = char[7];
 }
 
-packet string_ {
-    string asx @lengthOf(float),
-    @calculatedFrom(""a\\"")
-    match chars as x {
-        42 : A,
-        """ ++ [28040; 24687]%N ++ runes_of_ascii """ : T,
-        ""a\\"" : tag,
-        3 : i8i8,
-        [255] : MetaDataX,
-    },
-    float64 zchar,
-    @lengthOf(calculatedFrom)
-    int falsey,
-    i16 Packet @calculatedFrom(""// no comment"") `say ""hi""`,
-    @lengthOf(rootA)
-    trueish,
+options {
+    crc = float64;
+    Logon = false// a // b
+    As = '0'
+    f32a = char[];// packet A { u8 x, }
+    T = 00
+}
+
+root packet x {
+    @calculatedFrom(""1"")
+    repeat zchar[255] string_,
+}
+
+root packet int {
+    @tag(4294967296)
+    char[255] a1,
+    repeat x ``,
+    char[] packetx @lengthOf(uint8x) `u8 x,`,
+    zchar[10] leftPad @calculatedFrom(""a	b""),
+    lengthOf @calculatedFrom(""""),
+    @calculatedFrom(""packet"")
+    i32 matchKey,
+    @rightPad()
+    zchar[1] A,
+    u32 Packet @calculatedFrom(""{,}"") `a\`,// c
+    repeat char[00] Header `say ""hi""`,
+    stringy trueish `// not a comment`,
 }")).
-Eval vm_compute in ("<<<M4103>>>" ++ check (runes_of_ascii "  root	packet 
-zchar
-	{ @rightPad( )repeat  uint32 Pad
-
-, 
-  // a // b
-    // c
-char[4294967296]
-
-    f32a@calculatedFrom(
-"""" )  `u8 x,` , 
-uint16
-
-BodyLength	@lengthOf(
-packetx
-
+Eval vm_compute in ("<<<M1921>>>" ++ check (runes_of_ascii "packet chars
+{
+zchar[  10	]x  @lengthOf(repeatCount
     )
 
-`it's`
+    ,  repeat metadata{string
+    int ,
 
-, @calculatedFrom(
+repeat
+matchKey //x
+  ,
 
-    ""a\\""
-) string
+match  leftPad  as
 
-    falsey// c
-`a\`
-,
+o 
+{
 
-matchKey
+    0
 
-    Packet
-`it's`
-,
-	match
+: matchKey
 
-    trueish
-    as matchKey{	""\n"" : trueish [	""\n""	,	3
-]  :
-    len
-,
-
-    [ 10] : Logon 	 // `tick` ""quote"" 'q'
-0123456789 :
-packetx
-,
-
-    ""it's""
-
-    :Pad,  42
-// @lengthOf(
-	// a // b
-  	: falsey
-,
-	}  ,
-match 
-metadata
-	as
-rootA
-{""" ++ [128512]%N ++ runes_of_ascii """ :Header
-	,
-	255 :
-
-T	,0123456789
-    : tag	,
-
-""x y""
-:
-
-MetaDataX ,
-
-} ,} ")).
-Eval vm_compute in ("<<<M1135>>>" ++ check (runes_of_ascii "packet falsey { @leftPad
-()
-zchar[ 1 ]f32a,	_x // a // b
-{ int32 u128 , rootA
-, } , @rightPad
-    ( '\x00' )
     // " ++ [27880; 37322]%N ++ runes_of_ascii "
-    char matchKey	, @lengthOf( As )
-match pack as
-BodyLength
-    {
-    ""1""
-:tag,[ 65535 ]
-    :
-msg_type
 ,
-    [ ""`tick`"" ]: falsey ,
-""// no comment"" : u128 ,} , // " ++ [128512]%N ++ runes_of_ascii " emoji
-match len  as Z9_ {[
-    ""a	b""
-    , 10  ]:
-    Foo, 255: int , 0123456789 : tag
-,
-1
-    /// triple
-    : metadata ,[
-00 ,
-4294967296 ,
-    """ ++ [28040; 24687]%N ++ runes_of_ascii """ ] : //	t
-roots ,
-    [ 42	,4294967296 ,
-10
-    , 00 , 4294967296	]
-: int  , } , @calculatedFrom( ""{,}""	)repeat _x // c
-{tag // a // b
-`doc` , }
+[ 0]  :
+
+float
+    0:	packetx	// " ++ [128512]%N ++ runes_of_ascii " emoji
+    	255  :
+
+i64_ , //	t
+      [	0  ,007
     ,
-    }
-")).
-Eval vm_compute in ("<<<M410>>>" ++ check (runes_of_ascii "packet // " ++ [128512]%N ++ runes_of_ascii " emoji
-u8x {
-    @rightPad (
-)
-@lengthOf( u128 )
-// a // b
-// a // b
-char[ 65535// packet A { u8 x, }
-] i8i8 `{ , }` ,	}
-    packet Packet {@lengthOf( Z9_ ) float32
-MetaDataX
-,
-@tag(
-3
-    )
-@calculatedFrom(
-""" ++ [233]%N ++ runes_of_ascii "t" ++ [233]%N ++ runes_of_ascii """
-    // packet A { u8 x, }
-    )
-@tag(0123456789 ) repeat
-// c
-// @lengthOf(
-_x// c
-i8i8
-`// not a comment` , @calculatedFrom("""") //	t
-MetaDataX
-    // @lengthOf(
-    @lengthOf( leftPad )
-`" ++ [233]%N ++ runes_of_ascii "` ,u32 A	,  }
-//x
-// packet A { u8 x, }
-MetaData
-    o
-//x
-// `tick` ""quote"" 'q'
-{ char[  4294967296 ]
-    // " ++ [27880; 37322]%N ++ runes_of_ascii "
-    falsey , A _x
-, }")).
-Eval vm_compute in ("<<<M208>>>" ++ check (runes_of_ascii "packet i64_
-    {} packet
-    crc {
-} options
-{ }root packet
-charz {} packet //
-trueish{ repeat char[
-    255] lengthOf `" ++ [28040; 24687; 31867; 22411]%N ++ runes_of_ascii "` , zchar[
-//	t
-/// triple
-00 // a // b
-]x`it's` ,/// triple
-repeat	char[]
-    // `tick` ""quote"" 'q'
-    Packet `say ""hi""` , @calculatedFrom(
-""x y"" // " ++ [27880; 37322]%N ++ runes_of_ascii "
-) char[ 1] lengthOf, lengthOf`crlf
-line` ,	match charz as MetaDataX { ""a	b""
-// " ++ [27880; 37322]%N ++ runes_of_ascii "
-// `tick` ""quote"" 'q'
-: uint8x
-    ""\n"" : calculatedFrom } , @tag(	10
-) float64 i8i8 @calculatedFrom( """ ++ [128512]%N ++ runes_of_ascii """ ) `say ""hi""` ,
-@rightPad(
-'\x00' )
-i32
-Foo`it's`	,
-}
-")).
-Eval vm_compute in ("<<<M232>>>" ++ check (runes_of_ascii "packet
-    string_ { match charz as  len {
-7 : Pad
-    // @lengthOf(
-    } ,
-    match //	t
-i64_ as string_ { // @lengthOf(
-007:float [0 ]:Packet
-// `tick` ""quote"" 'q'
-//
-, 10 : leftPad
-,
-}
-,
-char[]
-// trailing space 
-// @lengthOf(
-roots, char[ 3 ] Header `it's` ,
-options1 @calculatedFrom( ""packet"" )`" ++ [233]%N ++ runes_of_ascii "`
-,
-BodyLength
-// @lengthOf(
-//x
-, repeat char[	65535 // " ++ [27880; 37322]%N ++ runes_of_ascii "
-]  body , char[ 42 ]
-// a // b
-// " ++ [128512]%N ++ runes_of_ascii " emoji
-Packet// packet A { u8 x, }
-`" ++ [233]%N ++ runes_of_ascii "`  , repeat/// triple
-f64 float	`it's`, packetx
-matchKey , }
-")).
-Eval vm_compute in ("<<<M216>>>" ++ check (runes_of_ascii "packet repeatCount
-{ f64 // @lengthOf(
-_x
-@lengthOf( zchar
-) ,
-Z9_ , calculatedFrom @lengthOf(rootA
-)
-    `{ , }` ,} packet a1{
-    /// triple
-    chars
-@lengthOf(
-tag ), metadata
-    , }packet
-Packet
-    { //x
-@tag( 65535 )  @leftPad ( )@tag( 42)	char[ 0123456789]
-    /// triple
-    float @calculatedFrom(""CRC32"" )
-    `tab	here` , repeat int8 string_, u8
-x_y_z
-`crlf
-line`, // @lengthOf(
-@tag( 0123456789
-)zchar[
-1
-]	lengthOf @calculatedFrom( ""it's"" ) , // " ++ [27880; 37322]%N ++ runes_of_ascii "
-}
-")).
-Eval vm_compute in ("<<<M476>>>" ++ check (runes_of_ascii "options
-    { chars =
-'\x00'
-metadata = true ; x_y_z =string;
-    // trailing space 
-    } packet
-Logon{ repeat char[ 10 ] packetx `" ++ [28040; 24687; 31867; 22411]%N ++ runes_of_ascii "` ,}
-options
-{	stringy
-= 4294967296 As  = ""x y""
-    // " ++ [27880; 37322]%N ++ runes_of_ascii "
-    ; f32a=
-    ' ' ; }packet chars{	@calculatedFrom(
-""x y"") packetx @calculatedFrom(
-    """ ++ [128512]%N ++ runes_of_ascii """ )// a // b
-,  i8i8 @lengthOf(
-// trailing space 
-// a // b
-u
-// " ++ [128512]%N ++ runes_of_ascii " emoji
-/// triple
-) , @rightPad( ' '
-) @lengthOf(
-    msg_type) @lengthOf( Z9_
-    )T stringy , }
-")).
-Eval vm_compute in ("<<<M692>>>" ++ check (runes_of_ascii "packet
-    // packet A { u8 x, }
-    chars {
-match tag as BodyLength{7 : roots ,""a\\"":
-    lengthOf
-    , ""1""	:	chars
-// " ++ [128512]%N ++ runes_of_ascii " emoji
-// " ++ [27880; 37322]%N ++ runes_of_ascii "
-, //	t
-}
-    ,
-@leftPad
-( '\x00' )  _x@lengthOf( MetaDataX
-) ,  repeat
-x {
-    match Logon as options1
-{
+""a\\"" , 
     //	t
-    3
-: Pad,
-    [""abc"" , // a // b
-7 , 3 ,  ""x y"" ] :
-o , [ 4294967296
-] : leftPad
-    /// triple
-    , """ ++ [28040; 24687]%N ++ runes_of_ascii """
-: Pad	,
-//
-//x
-},zchar[ 0123456789
-] leftPad, stringy T
-,
-    }, }
-options{ }")).
-Eval vm_compute in ("<<<M1110>>>" ++ check (runes_of_ascii "options{ //x
-}
-packet
-// " ++ [27880; 37322]%N ++ runes_of_ascii "
-//x
-crc { @rightPad ( ) // " ++ [128512]%N ++ runes_of_ascii " emoji
-match lengthOf as _x {
-    ""{,}"" :charz,//	t
-[ """ ++ [28040; 24687]%N ++ runes_of_ascii """
-, 255
-    //	t
-    ] : u8x ,[
-    // @lengthOf(
-    ""CRC32"" ,	65535 , ""it's"", """ ++ [128512]%N ++ runes_of_ascii """,	""it's""
-    , 3// c
-,
-255 ]
-    :As , ""it's"" :
-    options1
-    ,
-3 :
-chars , 42  :
-    metadata ,	},
-}root	packet
-//x
-// c
-BodyLength {
-match string_ as
-Z9_ {  0123456789 : leftPad , }, } MetaData float { crc msg_type , }")).
-Eval vm_compute in ("<<<M3446>>>" ++ check (runes_of_ascii "// top
-options // c0a
-  // c0b
-{
-    // c1
-LittleEndian =
-    // c3
-true // c4
-; }
-    // c6
-packet
-    // c7
-B // c8
-{ // c9a
-  // c9b
-u8 // c10
-a // c11a
-  // c11b
-, // c12
-string s // c14
-, // c15a
-  // c15b
-} // c16a
-  // c16b
-root
-    // c17
-packet // c18a
-  // c18b
-P { u16 // c21
-L // c22a
-  // c22b
-@lengthOf( B ) // c25a
-  // c25b
-,
-    // c26
-B // c27a
-  // c27b
-, // c28
-u8 // c29
-t , // c31
-} ")).
-Eval vm_compute in ("<<<M3642>>>" ++ check (runes_of_ascii "//x
-options {
-}
-
-packet As {
-    @leftPad()
-    Packet `a\`,// c
-}
-
-packet i64_ {
-    i16 charz `tab	here`,
-    @calculatedFrom(""" ++ [233]%N ++ runes_of_ascii "t" ++ [233]%N ++ runes_of_ascii """)
-    @lengthOf(Packet)
-    char[4294967296] msg_type @lengthOf(leftPad),
-}
-
-MetaData o {
-    x falsey,// packet A { u8 x, }
-    i16 u8x `crlf
-    line`,
-    zchar[4294967296] u8x `" ++ [28040; 24687; 31867; 22411]%N ++ runes_of_ascii "`,
-    char[3] Header,
-    x string_,
-    // c
-    //	t
-}// @lengthOf(")).
-Eval vm_compute in ("<<<M1021>>>" ++ check (runes_of_ascii "
-options {
-MetaDataX=  1;  matchKey	= ""it's"" ;f32a  = f64
-    // @lengthOf(
-    ; options1 = true
-}// `tick` ""quote"" 'q'
-packet
-    As{ //
-char[ 7]
-lengthOf
-@lengthOf( Foo )`line1
-line2`
-    , string msg_type
-// @lengthOf(
-// a // b
-@lengthOf( float )	,
-@calculatedFrom( ""packet"" )@tag( 00 ) o  falsey
-`line1
-line2` ,
-}MetaData  Foo
-{zchar[ 4294967296 ]	asx  ,
-//
-//
-}
-")).
-Eval vm_compute in ("<<<M4292>>>" ++ check (runes_of_ascii "  packet
-    zchar
-{
-	stringy 	 //
-  @lengthOf(
-    MetaDataX
-	)
-
-`it's`
-
-,@tag(1 )
-
-    match
-    Z9_ as  calculatedFrom
-{
-""" ++ [28040; 24687]%N ++ runes_of_ascii """ :  Header,
-    0123456789:
-
-asx
-	[ 
+    	""" ++ [128512]%N ++ runes_of_ascii """,65535 ,
 255
-	]  //	t
-
-	: // " ++ [128512]%N ++ runes_of_ascii " emoji
-  rootA ""\n""  : zchar,	}
-,
-
-    repeat float64
-
-rootA , char[] repeatCount ,
-
-    repeat int32
-
-    metadata  `" ++ [233]%N ++ runes_of_ascii "`
-, repeat 
-char[
-7
 
     ]
-	u8x
-, }
-")).
-Eval vm_compute in ("<<<M709>>>" ++ check (runes_of_ascii "packet
-    calculatedFrom
-    {int16 asx @calculatedFrom( """"
-    )
-    , @calculatedFrom( ""1"" )
-i8i8 { i32 stringy	@calculatedFrom(
-    ""a	b""
-    )`say ""hi""`
-, i32//x
-uint8x
-, match Header as	Logon {
-00 :
-    A ,} ,match
-    // `tick` ""quote"" 'q'
-    repeatCount
-as Packet { ""packet""
+
 :
-    // trailing space 
-    MetaDataX """ ++ [28040; 24687]%N ++ runes_of_ascii """: u,} ,},	}
-")).
-Eval vm_compute in ("<<<M123>>>" ++ check (runes_of_ascii "MetaData len /// triple
-{ //
-f64 T
-`u8 x,` , rootA	stringy ,  zchar repeatCount`say ""hi""` ,
-    MetaDataX As ,i8i8 string_, x_y_z f32a , } options // c
-{ Logon
-    //
-    =
-    string float =  string
-    A =
-""abc""/// triple
-;
-    //
-    A =
-""\" ++ [233]%N ++ runes_of_ascii """Logon =7	}
-    options{ }  options {
-    packetx = ""abc""// c
-; x =
-    true
+
+    charz  ,	255 :
+
+    u
+	, 
+} ,
 }
-")).
-Eval vm_compute in ("<<<M527>>>" ++ check (runes_of_ascii "packet
-    trueish { pack
-    @lengthOf( uint8x // " ++ [27880; 37322]%N ++ runes_of_ascii "
-) ,A @calculatedFrom(""CRC32"" ) //
-`say ""hi""`//
-,
-    repeat A{ /// triple
-body `" ++ [28040; 24687; 31867; 22411]%N ++ runes_of_ascii "` , a1
-// " ++ [27880; 37322]%N ++ runes_of_ascii "
-// `tick` ""quote"" 'q'
-body , o @calculatedFrom( ""a	b"" ), repeat MetaDataX ,
-}//
-,
-    @rightPad( ) match o
-as metadata
-{ 65535
-    : _x
-, ""\" ++ [233]%N ++ runes_of_ascii """  :
-pack
-}
-    , }
-")).
-Eval vm_compute in ("<<<M811>>>" ++ check (runes_of_ascii "options {
-    crc
-    // a // b
-    =""{,}"";
-body	=	1
-; }//x
-options { MetaDataX
-=
-    char[] ;chars
-// a // b
-// trailing space 
-=10
-; }// " ++ [128512]%N ++ runes_of_ascii " emoji
-packet
+, @rightPad  (  ' '	)
+	// packet A { u8 x, }
     // " ++ [128512]%N ++ runes_of_ascii " emoji
-    falsey {
-@lengthOf( body
-//	t
-// a // b
-)i16 i64_ `u8 x,`  , // a // b
-@leftPad  (
-) roots @lengthOf(	packetx ) , zchar, }
+	  @tag( 
+255
+    )  // c
+  	@rightPad(
+
+    ' ') u16  falsey
+
+, } options
+    { f32a =
+    """ ++ [128512]%N ++ runes_of_ascii """ 
+; }")).
+Eval vm_compute in ("<<<M1551>>>" ++ check (runes_of_ascii "  packet float 	 // a // b
+    { // c
+
+}
+	packet  u128 { 
+@calculatedFrom( 
+""1""
+	)	asx	x_y_z
+`" ++ [28040; 24687; 31867; 22411]%N ++ runes_of_ascii "`
+,  } root	packet
+
+    u8x
+	{  repeat uint8x	T 
+,  } packet
+
+    leftPad
+    {
+i64_,
+
+    @leftPad(
+
+    '0'	)
+	repeat tag 
+,
+repeat uint8x { matchKey @calculatedFrom(""abc"") 
+,
+string charz
+	,	} 	 // trailing space 
+  ,@rightPad	(
+
+    ) zchar[ 
+10 ]
+charz @calculatedFrom( 
+""" ++ [128512]%N ++ runes_of_ascii """
+
+    ) `// not a comment`	, 	 // trailing space 
+    	} 
+// @lengthOf(
 ")).
-Eval vm_compute in ("<<<M1545>>>" ++ check (runes_of_ascii "root packet Foo // " ++ [128512]%N ++ runes_of_ascii " emoji
-{ } options {
-    // a // b
-    tag // `tick` ""quote"" 'q'
-= //	t
-""""
-    ; u8x = zchar[0  ] }
-MetaData
-    int {zchar[ 10]
-lengthOf	`` , i64 u8x u8x`// not a comment` ,MetaDataX pack// `tick` ""quote"" 'q'
-`crlf
-line`
-, Logon charz `crlf
-line`
-    ,
-    // a // b
-    }
-")).
-Eval vm_compute in ("<<<M1520>>>" ++ check (runes_of_ascii "root packet Foo // " ++ [128512]%N ++ runes_of_ascii " emoji
-{ } options {
-    // a // b
-    tag // `tick` ""quote"" 'q'
-= //	t
-""""
-    ; u8x = zchar[0  ] }
-MetaData
-    int {zchar[ 10] ]
-lengthOf	`` , i64 u8x`// not a comment` ,MetaDataX pack// `tick` ""quote"" 'q'
-`crlf
-line`
-, Logon charz `crlf
-line`
-    ,
-    // a // b
-    }
-")).
-Eval vm_compute in ("<<<M1421>>>" ++ check (runes_of_ascii "root packet { // " ++ [128512]%N ++ runes_of_ascii " emoji
-Foo } options {
-    // a // b
-    tag // `tick` ""quote"" 'q'
-= //	t
-""""
-    ; u8x = zchar[0  ] }
-MetaData
-    int {zchar[ 10]
-lengthOf	`` , i64 u8x`// not a comment` ,MetaDataX pack// `tick` ""quote"" 'q'
-`crlf
-line`
-, Logon charz `crlf
-line`
-    ,
-    // a // b
-    }
-")).
-Eval vm_compute in ("<<<M1586>>>" ++ check (runes_of_ascii "root packet Foo // " ++ [128512]%N ++ runes_of_ascii " emoji
-{ } options {
-    // a // b
-    tag // `tick` ""quote"" 'q'
-= //	t
-""""
-    ; u8x = zchar[0  ] }
-MetaData
-    int {zchar[ 10]
-lengthOf	`` , i64 u8x`// not a comment` ,MetaDataX pack// `tick` ""quote"" 'q'
-`crlf
-line`
-, Logon `crlf
-line` charz
-    ,
-    // a // b
-    }
-")).
-Eval vm_compute in ("<<<M1437>>>" ++ check (runes_of_ascii "root packet Foo // " ++ [128512]%N ++ runes_of_ascii " emoji
-{ } false {
-    // a // b
-    tag // `tick` ""quote"" 'q'
-= //	t
-""""
-    ; u8x = zchar[0  ] }
-MetaData
-    int {zchar[ 10]
-lengthOf	`` , i64 u8x`// not a comment` ,MetaDataX pack// `tick` ""quote"" 'q'
-`crlf
-line`
-, Logon charz `crlf
-line`
-    ,
-    // a // b
-    }
-")).
-Eval vm_compute in ("<<<M1509>>>" ++ check (runes_of_ascii "root packet Foo // " ++ [128512]%N ++ runes_of_ascii " emoji
-{ } options {
-    // a // b
-    tag // `tick` ""quote"" 'q'
-= //	t
-""""
-    ; u8x = zchar[0  ] }
-MetaData
-    int { 10]
-lengthOf	`` , i64 u8x`// not a comment` ,MetaDataX pack// `tick` ""quote"" 'q'
-`crlf
-line`
-, Logon charz `crlf
-line`
-    ,
-    // a // b
-    }
-")).
-Eval vm_compute in ("<<<M3514>>>" ++ check (runes_of_ascii "options {
-    LittleEndian = true;
-    ArrayPrefixLenType = u64;
+Eval vm_compute in ("<<<M1461>>>" ++ check (runes_of_ascii "options {
+    LittleEndian = false;
+    StringPrefixLenType = u8;
+    ArrayPrefixLenType = u16;
     FixedStringPadFromLeft = false;
 }
-packet Quote {
+packet Heartbeat {
+    u8 seqNo,
+    @rightPad('\x00') char[8] x,
 }
-root packet Order {
-    i64 Side2,
-    Quote,
-    u32 Px,
-    match Px as Body {
-        [119, 147] : Quote,
+root packet Trade {
+    repeat Heartbeat,
+    float32 OrderId,
+    i64 Acct,
+    u16 Qty,
+    u16 clOrdID,
+    match clOrdID as Body {
+        131 : Heartbeat,
     },
-    u16 Flags @calculatedFrom(""CRC32""),
+    u16 sym @calculatedFrom(""CRC32""),
 }
 ")).
-Eval vm_compute in ("<<<M3493>>>" ++ check (runes_of_ascii "packet FooBar
-    // c1
+Eval vm_compute in ("<<<M260>>>" ++ check (runes_of_ascii "// " ++ [27880; 37322]%N ++ runes_of_ascii "
+packet tag { repeat i64_
+/// triple
+// @lengthOf(
 {
-    // c2
-u8 // c3
-a
-    // c4
-, } // c6
-packet // c7
-foo_bar {
-    // c9
-u16 // c10a
-  // c10b
-b // c11a
-  // c11b
-, // c12a
-  // c12b
-} root // c14a
-  // c14b
-packet // c15
-R
-    // c16
-{ FooBar // c18
-, // c19
-foo_bar , // c21
-} // c22
+zchar[007 ]  Logon@calculatedFrom( ""packet""
+    ) , repeat char[]leftPad `a\`
+    ,
+    zchar[ 3
+] float , }, }packet pack //
+{
+    repeat i8
+    len `
+` ,
+    }
+root packet uint8x
+    { // packet A { u8 x, }
+@leftPad
+() @calculatedFrom( ""a\\""
+    ) @rightPad ( '\x00') repeat char[	0
+]
+T,
+    } //	t")).
+Eval vm_compute in ("<<<M64>>>" ++ check (runes_of_ascii "MetaData chars {
+char[] // " ++ [128512]%N ++ runes_of_ascii " emoji
+As `a\` , } packet repeatCount {repeat
+    //x
+    charz
+{ char[ 00 ]	Pad,
+} , @calculatedFrom( ""// no comment"" )
+char[] matchKey //x
+`doc` ,u64 T@lengthOf(
+int
+) , }
+packet Header /// triple
+{  @calculatedFrom(""a\""b"") char[65535 ]
+// trailing space 
+// `tick` ""quote"" 'q'
+falsey , }
 ")).
-Eval vm_compute in ("<<<M3947>>>" ++ check (runes_of_ascii "root packet Foo {
+Eval vm_compute in ("<<<M192>>>" ++ check (runes_of_ascii "root
+packet	i64_
+    {
+    }options{ chars
+= char[
+65535 ] body = ""abc""; u= ""`tick`"" trueish
+='0' }options
+{repeatCount= '\x00'
+// " ++ [128512]%N ++ runes_of_ascii " emoji
+/// triple
+;
+    f32a =""\n"" int
+    /// triple
+    = false Pad
+= ""1""repeatCount =""// no comment""; }root packet string_
+{i32 As `tab	here` , } // c")).
+Eval vm_compute in ("<<<M14>>>" ++ check (runes_of_ascii "MetaData	packetx {
+    packetx i64_ `say ""hi""` ,  } options {
+    } packet string_ {
+@lengthOf(repeatCount ) len
+{ zchar[ 10]
+// " ++ [128512]%N ++ runes_of_ascii " emoji
+// `tick` ""quote"" 'q'
+u128 ,
+    f32
+    falsey`say ""hi""`
+,uint16// a // b
+f32a
+    `crlf
+line`
+,
+    } , }
+// " ++ [27880; 37322]%N ++ runes_of_ascii "
+")).
+Eval vm_compute in ("<<<M1807>>>" ++ check (runes_of_ascii "// top
+packet u128 {
+    // c2
+    @lengthOf(body)
+    // c5
+    match x_y_z as u {
+        // c10
+        ""x y"" : i8i8,
+        // c14
+    },
+    // c16
+    @tag(255)
+    // c19
+    char[] roots @lengthOf(int),
+    // c25
+}
+// c26")).
+Eval vm_compute in ("<<<M477>>>" ++ check (runes_of_ascii "options
+{
+matchKey = 42/// triple
+x='0' ;
+// packet A { u8 x, }
+//
+charz
+=
+// packet A { u8 x, }
+// trailing space 
+true  ; } MetaData BodyLength
+{
+uint8
+pack pack,zchar[ 1]float ,  float32 x_y_z `` ,u32
+_x,i16 body  , }
+")).
+Eval vm_compute in ("<<<M482>>>" ++ check (runes_of_ascii "options
+{
+matchKey = 42/// triple
+x='0' ;
+// packet A { u8 x, }
+//
+charz
+=
+// packet A { u8 x, }
+// trailing space 
+true  ; } MetaData BodyLength
+{
+uint8
+pack, ,zchar[ 1]float ,  float32 x_y_z `` ,u32
+_x,i16 body  , }
+")).
+Eval vm_compute in ("<<<M262>>>" ++ check (runes_of_ascii "packet charz
+{ @lengthOf(leftPad ) charz  @calculatedFrom( ""a\""b""
+)`it's`	, char[]
+Foo ,	uint8 MetaDataX `u8 x,`
+    ,int64 i8i8 , @calculatedFrom( ""a	b""
+) zchar[ // trailing space 
+7 ] string_, } MetaData Pad{
+    }")).
+Eval vm_compute in ("<<<M534>>>" ++ check (runes_of_ascii "options
+{
+matchKey = 42/// triple
+x='0' ;
+// packet A { u8 x, }
+//
+charz
+=
+// packet A { u8 x, }
+// trailing space 
+true  ; } MetaData BodyLength
+{
+uint8
+pack,zchar[ 1]float ,  float32 x_y_z `` ,u64
+_x,i16 body  , }
+")).
+Eval vm_compute in ("<<<M554>>>" ++ check (runes_of_ascii "options
+{
+matchKey = 42/// triple
+x='0' ;
+// packet A { u8 x, }
+//
+charz
+=
+// packet A { u8 x, }
+// trailing space 
+true  ; } MetaData BodyLength
+{
+uint8
+pack,zchar[ 1]float ,  float32 x_y_z `` ,u32
+_x,i16 :  , }
+")).
+Eval vm_compute in ("<<<M173>>>" ++ check (runes_of_ascii "//
+packet
+    u { }
+    packet
+    u8x { }options  {
+    Logon =string ; calculatedFrom ='\x00'
+;
+BodyLength// " ++ [27880; 37322]%N ++ runes_of_ascii "
+= 1; //	t
+_x// " ++ [27880; 37322]%N ++ runes_of_ascii "
+=""CRC32""; } root
+/// triple
+// " ++ [27880; 37322]%N ++ runes_of_ascii "
+packet Z9_ {
+}
+    MetaData chars  {
+}
+")).
+Eval vm_compute in ("<<<M1880>>>" ++ check (runes_of_ascii "// top
+packet Logon {
+    // c2
+    @tag(42)
+    // c5
+    @rightPad(' ')
+    // c9
+    @leftPad()
+    // c12
+    repeat trueish {
+        // c15
+        string T,// c18
+    },// c20
+}// c21")).
+Eval vm_compute in ("<<<M684>>>" ++ check (runes_of_ascii "// c
+packet i64_ {	char[] calculatedFrom , } packet
+trueish  {@calculatedFrom(
+""a\\"" ) o { i32 falsey@lengthOf( uint8x ),
+} } , } // `tick` ""quote"" 'q'
+options {// c
+Z9_ = ' '//
+}
+")).
+Eval vm_compute in ("<<<M722>>>" ++ check (runes_of_ascii "// c
+packet i64_ {	char[] calculatedFrom , } packet
+trueish  {@calculatedFrom(
+""a\\"" ) o { i32 falsey@lengthOf( uint8x ),
+ , } // `tick` ""quote"" 'q'
+options {// c
+Z9_ = ' '//
+}
+")).
+Eval vm_compute in ("<<<M495>>>" ++ check (runes_of_ascii "options
+{
+matchKey = 42/// triple
+x='0' ;
+// packet A { u8 x, }
+//
+charz
+=
+// packet A { u8 x, }
+// trailing space 
+true  ; } MetaData BodyLength
+{
+uint8
+pack,zchar[")).
+Eval vm_compute in ("<<<M1964>>>" ++ check (runes_of_ascii "packet A {
+    match k as n {
+        [
+            1, 22, 007, 4, 5,
+            66, 7, 8, 9, 10,
+            11, 12
+        ] : B,
+        2 : C,
+    },
+}")).
+Eval vm_compute in ("<<<M1952>>>" ++ check (runes_of_ascii "packet A {
+    match k as n {
+        [
+            ""a"", ""bb"", 007, ""d"", ""e"",
+            66, ""g"", ""h"", 9
+        ] : B,
+        2 : C,
+    },
+}")).
+Eval vm_compute in ("<<<M1882>>>" ++ check (runes_of_ascii "packet Header {
+    float32 repeatCount @lengthOf(f32a),
 }
 
 options {
-    // a // b
-    tag = """";
-    u8x = zchar[0]
+    As = true;
 }
 
-MetaData int {
-    zchar[10] lengthOf ``,
-    float64 u8x `// not a comment`,
-    MetaDataX pack `crlf
-        line`,
-    Logon charz `crlf
-        line`,
-    // a // b
+packet Pad {
+    @rightPad(' ')
+    leftPad,
 }")).
-Eval vm_compute in ("<<<M1335>>>" ++ check (runes_of_ascii "root
-    packet BodyLength
-{// " ++ [128512]%N ++ runes_of_ascii " emoji
-@leftPad ('\x00' //
-) zchar[ 4294967296] zchar , int64 x_y_z , @lengthOf( f32a )
-    // `tick` ""quote"" 'q'
-    @calculatedFrom(
-""abc"" ) @lengthOf(
-    calculatedFrom )  char[ 0]tag
-, falsey , } // a // b")).
-Eval vm_compute in ("<<<M921>>>" ++ check (runes_of_ascii "root packet
-    len {@rightPad( '0') repeat msg_type Foo ,
-    match  calculatedFrom
-as roots{ 00 : falsey	},@lengthOf( tag ) match // `tick` ""quote"" 'q'
-int as rootA { //
-7 :_x , },@calculatedFrom(
-    ""\" ++ [233]%N ++ runes_of_ascii """
-    )	f64 // " ++ [27880; 37322]%N ++ runes_of_ascii "
-crc ,
-}
-")).
-Eval vm_compute in ("<<<M3554>>>" ++ check (runes_of_ascii "packet Sub {
-    u8 a,
-    @calculatedFrom(""CRC16"") i16 SubSum,
-}
-root packet Frame {
-    u16 MsgType,
-    u16 BodyLen @lengthOf(Body),
-    Sub Body,
-    string note,
-    @calculatedFrom(""CRC16"") i16 Checksum,
-    u8 tail,
-}
-")).
-Eval vm_compute in ("<<<M2301>>>" ++ check (runes_of_ascii "MetaData Packet { }packet	asx  { @lengthOf( asx) falsey`crlf
-line`
-,
-    }
-    packet x	{uint32// @lengthOf(
-rootA rootA	,u32 options1 `say ""hi""` , @tag( 7
-    )// packet A { u8 x, }
-msg_type @lengthOf(
-stringy	)	, }
-
-")).
-Eval vm_compute in ("<<<M2303>>>" ++ check (runes_of_ascii "MetaData Packet { }packet	asx  { @lengthOf( asx) falsey`crlf
-line`
-,
-    }
-    packet x	{uint32// @lengthOf(
-options	,u32 options1 `say ""hi""` , @tag( 7
-    )// packet A { u8 x, }
-msg_type @lengthOf(
-stringy	)	, }
-
-")).
-Eval vm_compute in ("<<<M2218>>>" ++ check (runes_of_ascii "MetaData { Packet }packet	asx  { @lengthOf( asx) falsey`crlf
-line`
-,
-    }
-    packet x	{uint32// @lengthOf(
-rootA	,u32 options1 `say ""hi""` , @tag( 7
-    )// packet A { u8 x, }
-msg_type @lengthOf(
-stringy	)	, }
-
-")).
-Eval vm_compute in ("<<<M4156>>>" ++ check (runes_of_ascii "packet	Logon
-
-{ string user ,
-
-} root
-
-    packet
-	Frame
-{u8 K, 
-match
-	K
-	as
-
-Body
-    { 
-1 
-:
-
-Logon
-
-    ,2:Logout  ,	}, Tail,
-
-    }
-    packet
-    Logout
-{u16
-    reason
-
-, }packet
-
-Tail{  u32 crc	,
-
-}")).
-Eval vm_compute in ("<<<M760>>>" ++ check (runes_of_ascii "packet charz// @lengthOf(
-{ @calculatedFrom( ""{,}"" // @lengthOf(
-)
-char[// " ++ [128512]%N ++ runes_of_ascii " emoji
-255 ] crc @calculatedFrom( """ ++ [233]%N ++ runes_of_ascii "t" ++ [233]%N ++ runes_of_ascii """  ) , @tag(
-    // a // b
-    7 ) uint16
-    pack @calculatedFrom(
-    """ ++ [233]%N ++ runes_of_ascii "t" ++ [233]%N ++ runes_of_ascii """ ) `two words`
-,
-}")).
-Eval vm_compute in ("<<<M2212>>>" ++ check (runes_of_ascii " Packet { }packet	asx  { @lengthOf( asx) falsey`crlf
-line`
-,
-    }
-    packet x	{uint32// @lengthOf(
-rootA	,u32 options1 `say ""hi""` , @tag( 7
-    )// packet A { u8 x, }
-msg_type @lengthOf(
-stringy	)	, }
-
-")).
-Eval vm_compute in ("<<<M1304>>>" ++ check (runes_of_ascii "packet
-    u8x { int32 o
-    , }  options {//x
-options1 =
-    10
-    // a // b
-    Header
-= 1// " ++ [27880; 37322]%N ++ runes_of_ascii "
-;	lengthOf = '\x00'; } root packet // packet A { u8 x, }
-falsey { @lengthOf( Header ) Foo
-`" ++ [28040; 24687; 31867; 22411]%N ++ runes_of_ascii "` ,}")).
-Eval vm_compute in ("<<<M3431>>>" ++ check (runes_of_ascii "// top
-root // c0
-packet // c1
-P
-    // c2
-{ hdr
-    // c4
-{ // c5
-u8 // c6
-a
-    // c7
-, // c8a
-  // c8b
-} // c9a
-  // c9b
-, // c10
-u8 // c11a
-  // c11b
-x // c12a
-  // c12b
-, // c13
-} // c14
-")).
-Eval vm_compute in ("<<<M3988>>>" ++ check (runes_of_ascii "packet zchar {
-    @tag(255)
-    match u128 as roots {
-        0123456789 : u,
-    },
-    zchar[4294967296] charz `tab	here`,// " ++ [27880; 37322]%N ++ runes_of_ascii "
-    match uint8x as leftPad {
-        10 : _x,
-    },
-}")).
-Eval vm_compute in ("<<<M638>>>" ++ check (runes_of_ascii "options /// triple
-{ T= //
-""" ++ [128512]%N ++ runes_of_ascii """ ;
-    o= '\x00'As =
-    '\x00' //	t
-tag	= // a // b
-""1""
-}
-    root packet MetaDataX	{ @rightPad ('0' ) _x
-`// not a comment`	, /// triple
-}")).
-Eval vm_compute in ("<<<M483>>>" ++ check (runes_of_ascii "options  { // packet A { u8 x, }
-options1
-    = ""\" ++ [233]%N ++ runes_of_ascii """ ;
-    A=
-    false /// triple
-;
-    matchKey =""\" ++ [233]%N ++ runes_of_ascii """	packetx= ' ' ;
-//
-// packet A { u8 x, }
-options1 =
-    ' ' ; }
-")).
-Eval vm_compute in ("<<<M1345>>>" ++ check (runes_of_ascii "options {f32a
-=
-""packet"" } MetaData
-    float{ zchar[0 ]Z9_ `
-` ,
-u64 roots ,
-    //	t
-    uint64  zchar`` , int32
-trueish, uint64 roots
-,
-} // `tick` ""quote"" 'q'")).
-Eval vm_compute in ("<<<M1205>>>" ++ check (runes_of_ascii "
-packet charz {
-    char[
-// packet A { u8 x, }
-//
-0123456789
-] A `it's` , u64
-Z9_
-, @calculatedFrom(
-""// no comment"")
-    A
-,u
-    o
-    , }  options{}
-")).
-Eval vm_compute in ("<<<M102>>>" ++ check (runes_of_ascii "packet u128
-{ i64 A `{ , }`
-,
-    } MetaData
-    i64_ {
-trueish
-Z9_ ,
-// " ++ [128512]%N ++ runes_of_ascii " emoji
+Eval vm_compute in ("<<<M152>>>" ++ check (runes_of_ascii "options
+    {
+matchKey
+= ' '
+tag  = '\x00' ;
+    metadata
 // `tick` ""quote"" 'q'
-} options { metadata = i16 ; charz=
-false}
-")).
-Eval vm_compute in ("<<<M2378>>>" ++ check (runes_of_ascii "MetaData Packet { }packet	asx  { @lengthOf( asx) falsey`crlf
-line`
-,
-    }
-    packet x	{uint32// @lengthOf(
-rootA	,u32 options1 `say ""hi""` , ")).
-Eval vm_compute in ("<<<M1648>>>" ++ check (runes_of_ascii "root packet /// triple
-rootA {	i32
-MetaDataX MetaDataX@calculatedFrom( ""CRC32"" ) `line1
-line2` , } MetaData BodyLength {
-u8
-rootA, } // c")).
-Eval vm_compute in ("<<<M3880>>>" ++ check (runes_of_ascii "packet trueish {
-    match f32a as stringy {
-        """ ++ [28040; 24687]%N ++ runes_of_ascii """ : _x,
-        1 : stringy,
-        65535 : u8x,
-        65535 : asx,
-    },
-}")).
-Eval vm_compute in ("<<<M1731>>>" ++ check (runes_of_ascii "root packet /// triple
-rootA {	i32
-MetaDataX@calculatedFrom( '' ""CRC32"" ) `line1
-line2` , } MetaData BodyLength {
-u8
-rootA, } // c")).
-Eval vm_compute in ("<<<M1732>>>" ++ check (runes_of_ascii "root packet /// triple
-rootA {	i32
-MetaDataX@calculatedFrom( ""CRC32"" ) `line1
-line2` , } MetaD%ata BodyLength {
-u8
-rootA, } // c")).
-Eval vm_compute in ("<<<M1707>>>" ++ check (runes_of_ascii "root packet /// triple
-rootA {	i32
-MetaDataX@calculatedFrom( ""CRC32"" ) `line1
-line2` , } MetaData BodyLength {
-u8
-rootA } // c")).
-Eval vm_compute in ("<<<M4098>>>" ++ check (runes_of_ascii "// top
-MetaData 	 // c0
-	  zchar // c1
-
-	{  // c2
-	  zchar[ // c3
-3 // c4
-	] 	 // c5
-  Pad	// c6
-  ,// c7
-    } 	 // c8
-")).
-Eval vm_compute in ("<<<M3968>>>" ++ check (runes_of_ascii "  packet  A {
-
-match k
-	as  n
-
-{
-[  ""a""
-,
-
-""bb""	, 007	,
-	""d"",
-""e""
-, 66 ,
-
-    ""g"" ,
-	""h"" ,	9, ""j"" 
-]
-:
-B
-	2  : C }
-,	} ")).
-Eval vm_compute in ("<<<M1009>>>" ++ check (runes_of_ascii "options
-{
 // @lengthOf(
-// " ++ [27880; 37322]%N ++ runes_of_ascii "
-Logon	= char[007 ] matchKey =char[7 // " ++ [128512]%N ++ runes_of_ascii " emoji
-] string_= ""1"" ; msg_type
-=
-    ""\" ++ [233]%N ++ runes_of_ascii """ ;} 	 ")).
-Eval vm_compute in ("<<<M1895>>>" ++ check (runes_of_ascii "packet
-    Pad // a // b
-{ i8i8 @calculatedFrom( ""a	b"") `u8 x,` ,
-} options{ float// " ++ [128512]%N ++ runes_of_ascii " emoji
-= f64 caf" ++ [233]%N ++ runes_of_ascii "_1
-=//	t
-00 }
+=  string ; charz
+= 65535
+; }
 ")).
-Eval vm_compute in ("<<<M1783>>>" ++ check (runes_of_ascii "Pad
-    packet // a // b
-{ i8i8 @calculatedFrom( ""a	b"") `u8 x,` ,
-} options{ float// " ++ [128512]%N ++ runes_of_ascii " emoji
-= f64 i64_
-=//	t
-00 }
-")).
-Eval vm_compute in ("<<<M1833>>>" ++ check (runes_of_ascii "packet
-    Pad // a // b
-{ i8i8 @calculatedFrom( ""a	b"") `u8 x,` ,
-} uint64{ float// " ++ [128512]%N ++ runes_of_ascii " emoji
-= f64 i64_
-=//	t
-00 }
-")).
-Eval vm_compute in ("<<<M1706>>>" ++ check (runes_of_ascii "root packet /// triple
-rootA {	i32
-MetaDataX@calculatedFrom( ""CRC32"" ) `line1
-line2` , } MetaData BodyLength {
-u8")).
-Eval vm_compute in ("<<<M1036>>>" ++ check (runes_of_ascii "options {
-    Packet =
-    // a // b
-    007
-    ;
-u128 =	false ; Header
-    = 42 Z9_= char[ 10
-]; } // a // b")).
-Eval vm_compute in ("<<<M4>>>" ++ check (runes_of_ascii "packet // a // b
-tag {
-    char[ 7]
-body
-@calculatedFrom( ""a	b"")
-// trailing space 
-// trailing space 
-,
+Eval vm_compute in ("<<<M1606>>>" ++ check (runes_of_ascii "packet
+    i8i8
+	{
+lengthOf
+
+lengthOf `u8 x,`
+	,
+
+} options
+	{ u
+	='\x00'
+    ; }
+	MetaData
+	i64_	{
+} MetaData Header{	}")).
+Eval vm_compute in ("<<<M649>>>" ++ check (runes_of_ascii "MetaData
+    // trailing space 
+    matchKey
+{ u64 chars // a // b
+,char[] lengthOf `// not a comment`
+    , //	t" ++ [8232]%N ++ runes_of_ascii "
 }")).
-Eval vm_compute in ("<<<M383>>>" ++ check (runes_of_ascii "options { leftPad
-= '\x00'
-    ;Pad =
-    char
-    }packet f32a {
-    @leftPad ( ) f64	stringy
-    , } 	 ")).
-Eval vm_compute in ("<<<M3341>>>" ++ check (runes_of_ascii "packet calculatedFrom // c
-{ @tag( 4294967296 ) u msg_type , char[ 3 ] crc @lengthOf( len ) `u8 x,` , }")).
-Eval vm_compute in ("<<<M3373>>>" ++ check (runes_of_ascii "packet calculatedFrom { @tag( 4294967296 ) u msg_type , char[ 3 ] crc @lengthOf( len ) `u8 x,` , // c
-}")).
-Eval vm_compute in ("<<<M843>>>" ++ check (runes_of_ascii "  packet crc { repeat int64 string_
-    `" ++ [28040; 24687; 31867; 22411]%N ++ runes_of_ascii "` , } root packet
-leftPad {
-    } MetaData A{
+Eval vm_compute in ("<<<M1980>>>" ++ check (runes_of_ascii "  packet
+    o
+
+    {
+	@tag(
+    42	)
+
+    repeat	x{ 
+char[
+    0123456789 ]	i64_	,
+	}  ,  } options
+	{  }	// c
+")).
+Eval vm_compute in ("<<<M1857>>>" ++ check (runes_of_ascii "// @lengthOf(
+options {
 }
-// c
-")).
-Eval vm_compute in ("<<<M3017>>>" ++ check (runes_of_ascii "packet A {
-    Inner {
-        u8 x `
-`,
-        Deep {
-            u8 y `
-`,
-        },
+
+packet pack {
+    //
+}
+
+options {
+}
+
+MetaData msg_type {
+}
+
+root packet repeatCount {
+}")).
+Eval vm_compute in ("<<<M1485>>>" ++ check (runes_of_ascii "packet Logon {
+    @tag(42)
+    @rightPad(' ')
+    @leftPad()
+    repeat trueish {
+        string T,
     },
 }")).
-Eval vm_compute in ("<<<M3217>>>" ++ check (runes_of_ascii "packet
+Eval vm_compute in ("<<<M930>>>" ++ check (runes_of_ascii "packet A {
+    u16 len @lengthOf(body) `
+`,
+    u32 crc @calculatedFrom(""CRC32"") `
+`,
+    string body,
+}")).
+Eval vm_compute in ("<<<M1272>>>" ++ check (runes_of_ascii "packet calculatedFrom { @tag( 4294967296 ) u msg_type , char[
 // c
-Logon { @tag( 42 ) @rightPad ( ' ' ) @leftPad ( ) repeat trueish { string T , } , }")).
-Eval vm_compute in ("<<<M3249>>>" ++ check (runes_of_ascii "packet Logon { @tag( 42 ) @rightPad ( ' ' ) @leftPad ( ) repeat trueish { string
-// c
-T , } , }")).
-Eval vm_compute in ("<<<M3935>>>" ++ check (runes_of_ascii "
-packet
-    A
-
-{match	k as
-
-n {
-[
-
-1 ,
-""bb""
-
-    , 007]:  B
-
-, 2:
-C
-
-    }
-    ,
-	}
+3 ] crc @lengthOf( len ) `u8 x,` , }")).
+Eval vm_compute in ("<<<M1406>>>" ++ check (runes_of_ascii "packet FooBar {
+    u8 a,
+}
+packet foo_bar {
+    u16 b,
+}
+root packet R {
+    FooBar,
+    foo_bar,
+}
 ")).
-Eval vm_compute in ("<<<M1977>>>" ++ check (runes_of_ascii "root
-packet crc
-    { f32a f32a @calculatedFrom( """ ++ [233]%N ++ runes_of_ascii "t" ++ [233]%N ++ runes_of_ascii """ )
-    `say ""hi""`, lengthOf `` ,  }")).
-Eval vm_compute in ("<<<M2935>>>" ++ check (runes_of_ascii "packet A {
+Eval vm_compute in ("<<<M882>>>" ++ check (runes_of_ascii "packet A {
   match k as n {
-    [""a"", ""bb"", 007, ""d"", ""e"", 66, ""g""] : B
+    [1, ""bb"", 007, ""d"", 5, ""f"", 7, ""h"", 9, ""j""] : B
     2 : C
   },
 }")).
-Eval vm_compute in ("<<<M4304>>>" ++ check (runes_of_ascii "packet
-	A { match	k
-	as n{ [ 1
-,
-    ""bb""
+Eval vm_compute in ("<<<M1150>>>" ++ check (runes_of_ascii "packet Logon { @tag( 42 ) @rightPad ( ' ' ) @leftPad // c
+( ) repeat trueish { string T , } , }")).
+Eval vm_compute in ("<<<M1648>>>" ++ check (runes_of_ascii "
+
+  MetaData
+	_x {zchar[
+        // c
+
+	4294967296
+    ]
+
+lengthOf 
+`// not a comment`
 	,
-	007
-,
 
-    ""d""] :B
-    2  : C
 }
-,}
 
 ")).
-Eval vm_compute in ("<<<M1988>>>" ++ check (runes_of_ascii "root
-packet crc
-    { f32a @calculatedFrom( ) """ ++ [233]%N ++ runes_of_ascii "t" ++ [233]%N ++ runes_of_ascii """
-    `say ""hi""`, lengthOf `` ,  }")).
-Eval vm_compute in ("<<<M3718>>>" ++ check (runes_of_ascii "packet A {
-    B b `tab
-    	x`,
-    B `tab
-    	x`,
-    repeat B bs `tab
-    	x`,
-}")).
-Eval vm_compute in ("<<<M1958>>>" ++ check (runes_of_ascii "
-packet crc
-    { f32a @calculatedFrom( """ ++ [233]%N ++ runes_of_ascii "t" ++ [233]%N ++ runes_of_ascii """ )
-    `say ""hi""`, lengthOf `` ,  }")).
-Eval vm_compute in ("<<<M3316>>>" ++ check (runes_of_ascii "packet o { @tag( 42 ) repeat x { char[ 0123456789 ] // c
-i64_ , } , } options { }")).
-Eval vm_compute in ("<<<M3448>>>" ++ check (runes_of_ascii "options {
-    FixedStringPadFromLeft = true;
-}
-root packet P {
-    char[4] z,
-}
-")).
-Eval vm_compute in ("<<<M3482>>>" ++ check (runes_of_ascii "packet
-    orderItem  { u8 a	,
-} root
-packet newOrder{	orderItem	, u8 x	,}
-")).
-Eval vm_compute in ("<<<M3845>>>" ++ check (runes_of_ascii "
-
-  packet A
-{
-	Inner
-	{ u8
-
-    x	`x
-`
-,
-	Deep{ u8  y`x
-` , } 
-,},  }
-")).
-Eval vm_compute in ("<<<M916>>>" ++ check (runes_of_ascii "MetaData crc	{ roots _x, u128 rootA `
-`, zchar[ 0 ] Foo `line1
-line2` , }")).
-Eval vm_compute in ("<<<M3413>>>" ++ check (runes_of_ascii "MetaData _x { zchar[ 4294967296 ] lengthOf `// not a comment` , } // c
-")).
-Eval vm_compute in ("<<<M3408>>>" ++ check (runes_of_ascii "MetaData _x { zchar[ 4294967296 ] lengthOf
-// c
-`// not a comment` , }")).
-Eval vm_compute in ("<<<M2167>>>" ++ check (runes_of_ascii "root
-    // `tick` ""quote"" 'q'
-    packet As { { trueish Packet , }
-")).
-Eval vm_compute in ("<<<M2881>>>" ++ check (runes_of_ascii "packet A {
+Eval vm_compute in ("<<<M873>>>" ++ check (runes_of_ascii "packet A {
   match k as n {
-    [1, 22, ""c c""] : B
+    [1, 22, ""c c"", 4, 5, ""f"", 7, 8, ""i""] : B
     2 : C
   },
 }")).
-Eval vm_compute in ("<<<M763>>>" ++ check (runes_of_ascii "root
-    packet pack { }packet //
-u8x {
-    }
-MetaData o
-{ } // c")).
-Eval vm_compute in ("<<<M2189>>>" ++ check (runes_of_ascii "root
-    // `tick` ""quote"" 'q'
-    packet As { trueish Packet ,")).
-Eval vm_compute in ("<<<M2910>>>" ++ check (runes_of_ascii "packet A { Inner { match k as n { [1,22,007,4,5] : B, }, }, }")).
-Eval vm_compute in ("<<<M3657>>>" ++ check (runes_of_ascii "
-//
-options { 
-options1
-	=""a\""b""  } 
-        // @lengthOf(")).
-Eval vm_compute in ("<<<M2718>>>" ++ check (runes_of_ascii "} } int64 """ ++ [28040; 24687]%N ++ runes_of_ascii """ ] char[ ) i64 packet @lengthOf( ; lengthOf")).
-Eval vm_compute in ("<<<M1898>>>" ++ check (runes_of_ascii "
-As	packet { @calculatedFrom(//x
-""{,}""	)lengthOf , } 	 ")).
-Eval vm_compute in ("<<<M2871>>>" ++ check (runes_of_ascii "packet A { Inner { match k as n { [1,22] : B, }, }, }")).
-Eval vm_compute in ("<<<M1955>>>" ++ check (runes_of_ascii "
-packet	As { @calculatedFrom(//x
-""{,}""	)a" ++ [769]%N ++ runes_of_ascii "b , } 	 ")).
-Eval vm_compute in ("<<<M3566>>>" ++ check (runes_of_ascii "
-MetaData M {
-    u8 x`
-`
-, T	t 
-`
-` ,
-
-    } ")).
-Eval vm_compute in ("<<<M1770>>>" ++ check (runes_of_ascii "options { }options {  } // `tick` ""quo''te"" 'q'")).
-Eval vm_compute in ("<<<M1779>>>" ++ check (runes_of_ascii "options ""{ }options {  } // `tick` ""quote"" 'q'")).
-Eval vm_compute in ("<<<M489>>>" ++ check (runes_of_ascii "// packet A { u8 x, }
- // `tick` ""quote"" 'q'")).
-Eval vm_compute in ("<<<M3042>>>" ++ check (runes_of_ascii "MetaData M {
-    u8 x `
-x`,
-    T t `
-x`,
-}")).
-Eval vm_compute in ("<<<M2623>>>" ++ check (runes_of_ascii "packet A { @leftPad('0' '0') char[2] x, }")).
-Eval vm_compute in ("<<<M2756>>>" ++ check (runes_of_ascii "nueM}|d!jTeH%\GJjof8G!IY}Og26Y'e]tl6awM""")).
-Eval vm_compute in ("<<<M1910>>>" ++ check (runes_of_ascii "
-packet	As { //x
-""{,}""	)lengthOf , } 	 ")).
-Eval vm_compute in ("<<<M2616>>>" ++ check (runes_of_ascii "packet A { match k as n { '0' : B }, }")).
-Eval vm_compute in ("<<<M2760>>>" ++ check (runes_of_ascii "3#otkgH:+^FT^?x|t5RQ/GU$o[_gS~s3=JWej")).
-Eval vm_compute in ("<<<M2696>>>" ++ check (runes_of_ascii "Ql.'X9""L&.Qjt%tErjR_Lrg0|C7=a^RM`;F")).
-Eval vm_compute in ("<<<M2649>>>" ++ check (runes_of_ascii "MetaData M { u8 x @lengthOf(y), }")).
-Eval vm_compute in ("<<<M776>>>" ++ check (runes_of_ascii "options { falsey = false
-    }
-")).
-Eval vm_compute in ("<<<M3073>>>" ++ check (runes_of_ascii "packet A {
- u8 x `d" ++ [160]%N ++ runes_of_ascii "`, // c" ++ [160]%N ++ runes_of_ascii "
-}")).
-Eval vm_compute in ("<<<M3572>>>" ++ check (runes_of_ascii "
-// c" ++ [8239]%N ++ runes_of_ascii "
-	packet
-    A {
-	}
-
-")).
-Eval vm_compute in ("<<<M1300>>>" ++ check (runes_of_ascii "//
-options {	int
+Eval vm_compute in ("<<<M630>>>" ++ check (runes_of_ascii "MetaData
+    // trailing space 
+    matchKey
+{ u64 chars // a // b
+,char[] lengthOf")).
+Eval vm_compute in ("<<<M331>>>" ++ check (runes_of_ascii "MetaData
+// a // b
+//	t
+rootA { } options //
+{ tag // `tick` ""quote"" 'q'
 =
-true; }")).
-Eval vm_compute in ("<<<M2086>>>" ++ check (runes_of_ascii "MetaData A { u64 pack, }@x")).
-Eval vm_compute in ("<<<M2576>>>" ++ check (runes_of_ascii "packet A { char[ x ] y, }")).
-Eval vm_compute in ("<<<M2578>>>" ++ check (runes_of_ascii "packet A { char[ 3 ] , }")).
-Eval vm_compute in ("<<<M2056>>>" ++ check (runes_of_ascii "MetaData A  u64 pack, }")).
-Eval vm_compute in ("<<<M2064>>>" ++ check (runes_of_ascii "MetaData A { ( pack, }")).
-Eval vm_compute in ("<<<M3662>>>" ++ check (runes_of_ascii "// @lengthOf(
-
-	//	t
+3; }
 ")).
-Eval vm_compute in ("<<<M2234>>>" ++ check (runes_of_ascii "MetaData Packet { }")).
-Eval vm_compute in ("<<<M987>>>" ++ check (runes_of_ascii "MetaData asx	{ }
+Eval vm_compute in ("<<<M1233>>>" ++ check (runes_of_ascii "packet o { @tag( 42 ) repeat x { char[ 0123456789 ] i64_
+// c
+, } , } options { }")).
+Eval vm_compute in ("<<<M823>>>" ++ check (runes_of_ascii "packet A {
+  match k as n {
+    [""a"", ""bb"", 007, ""d"", ""e""] : B
+    2 : C
+  },
+}")).
+Eval vm_compute in ("<<<M816>>>" ++ check (runes_of_ascii "packet A {
+  match k as n {
+    [1, ""bb"", 007, ""d"", 5] : B,
+    2 : C
+  },
+}")).
+Eval vm_compute in ("<<<M1098>>>" ++ check (runes_of_ascii "packet A {
+    match k as n {
+        1 : B // c
+        , // d
+    },
+}")).
+Eval vm_compute in ("<<<M1315>>>" ++ check (runes_of_ascii "MetaData _x { zchar[ // c
+4294967296 ] lengthOf `// not a comment` , }")).
+Eval vm_compute in ("<<<M568>>>" ++ check (runes_of_ascii "options
+{
+matchKey = 42/// triple
+x='0' ;
+// packet A { u8 x, }
+/")).
+Eval vm_compute in ("<<<M1747>>>" ++ check (runes_of_ascii "packet A {
+    B {
+        // a
+        u8 x,// b
+    },// d
+}")).
+Eval vm_compute in ("<<<M615>>>" ++ check (runes_of_ascii "MetaData
+    // trailing space 
+    matchKey
+{ u64 chars")).
+Eval vm_compute in ("<<<M1959>>>" ++ check (runes_of_ascii "packet x_y_z {
+    i8 As @calculatedFrom(""a	b""),
+}")).
+Eval vm_compute in ("<<<M932>>>" ++ check (runes_of_ascii "MetaData M {
+    u8 x `
+`,
+    T t `
+`,
+}")).
+Eval vm_compute in ("<<<M1982>>>" ++ check (runes_of_ascii "// " ++ [128512]%N ++ runes_of_ascii " emoji
+packet roots {
+}// @lengthOf(")).
+Eval vm_compute in ("<<<M762>>>" ++ check (runes_of_ascii "false , @calculatedFrom( ""abc"" [ =")).
+Eval vm_compute in ("<<<M1550>>>" ++ check (runes_of_ascii "
+options
+// " ++ [128512]%N ++ runes_of_ascii " emoji
+    	{ }
 
 ")).
-Eval vm_compute in ("<<<M3102>>>" ++ check (runes_of_ascii "// c" ++ [8233]%N ++ runes_of_ascii "
+Eval vm_compute in ("<<<M1504>>>" ++ check (runes_of_ascii "
+options
+
+{Packet = char[] 
+}")).
+Eval vm_compute in ("<<<M114>>>" ++ check (runes_of_ascii "//	t
+packet
+Logon { } 	 ")).
+Eval vm_compute in ("<<<M1666>>>" ++ check (runes_of_ascii "// packet A { u8 x, }
+")).
+Eval vm_compute in ("<<<M981>>>" ++ check (runes_of_ascii "// c" ++ [12288]%N ++ runes_of_ascii "
 packet A {
 }")).
-Eval vm_compute in ("<<<M2655>>>" ++ check (runes_of_ascii "options { a = ; }")).
-Eval vm_compute in ("<<<M2490>>>" ++ check (runes_of_ascii "@calculatedFrom(")).
-Eval vm_compute in ("<<<M2083>>>" ++ check (runes_of_ascii "MetaData A { u")).
-Eval vm_compute in ("<<<M2650>>>" ++ check (runes_of_ascii "MetaData { }")).
-Eval vm_compute in ("<<<M2082>>>" ++ check (runes_of_ascii "MetaData ")).
-Eval vm_compute in ("<<<M2501>>>" ++ check (runes_of_ascii "// a
-b")).
-Eval vm_compute in ("<<<M2425>>>" ++ check (runes_of_ascii "char[")).
-Eval vm_compute in ("<<<M3100>>>" ++ check (runes_of_ascii "// c" ++ [8233]%N)).
-Eval vm_compute in ("<<<M2540>>>" ++ check (runes_of_ascii "[[]]")).
-Eval vm_compute in ("<<<M2547>>>" ++ check (runes_of_ascii "a" ++ [12]%N ++ runes_of_ascii "b")).
-Eval vm_compute in ("<<<M2830>>>" ++ check (runes_of_ascii "qp")).
+Eval vm_compute in ("<<<M1082>>>" ++ check (runes_of_ascii "packet A { // a
+ }")).
+Eval vm_compute in ("<<<M751>>>" ++ check (runes_of_ascii "u16 uint16 true")).
+Eval vm_compute in ("<<<M191>>>" ++ check (runes_of_ascii "//
+
+
+")).
+Eval vm_compute in ("<<<M734>>>" ++ check ([0]%N)).
